@@ -1,1 +1,1809 @@
-From Coq Require Import ZArith List.
+(* Lemmas for C14: sizes of the descriptor writers (C14_len), the TLV framing of parseDescriptors (C14_tlv),
+   per-tag round trips. *)
+From Coq Require Import ZArith List Lia Bool ZifyBool.
+Require Import Base.Bits Base.Iter Base.Wr Gen.Consts Gen.Types Gen.Preds Model.Dvb Model.Desc Spec.DescSpec.
+Import ListNotations.
+Open Scope Z_scope.
+
+(* ================= part A: sizes ================= *)
+
+(* number of bits an item list hands to the BitsWriter *)
+Definition bitlen (l : list witem) : Z := Z.of_nat (length (items_bits l)).
+
+Lemma bitlen_nil : bitlen [] = 0. Proof. reflexivity. Qed.
+Lemma bitlen_app a b : bitlen (a ++ b) = bitlen a + bitlen b.
+Proof. unfold bitlen. rewrite items_bits_app, app_length. lia. Qed.
+Lemma bitlen_cons it l : bitlen (it :: l) = bitlen [it] + bitlen l.
+Proof. change (it :: l) with ([it] ++ l). apply bitlen_app. Qed.
+Lemma bitlen_bits w v : bitlen [WBits w v] = Z.of_nat w.
+Proof. unfold bitlen, items_bits; cbn [flat_map item_bits]. rewrite app_nil_r, bits_of_length. reflexivity. Qed.
+Lemma bitlen_bool b : bitlen [WBool b] = 1. Proof. reflexivity. Qed.
+Lemma bitlen_bytes bs : bitlen [WBytes bs] = 8 * zlen bs.
+Proof. unfold bitlen, items_bits, zlen; cbn [flat_map item_bits]. rewrite app_nil_r, bits_of_bytes_length. lia. Qed.
+Lemma bitlen_repeat it n : bitlen (repeat it n) = Z.of_nat n * bitlen [it].
+Proof. induction n as [|n IH]; [reflexivity|]. cbn [repeat]. rewrite bitlen_cons, IH. lia. Qed.
+
+Lemma bitlen_wbytesn bs n pad : bitlen (wbytesn bs n pad) = 8 * Z.of_nat n.
+Proof.
+  unfold wbytesn. destruct (n =? 0)%nat eqn:E0; [apply Nat.eqb_eq in E0; subst; reflexivity|].
+  destruct (n <=? length bs)%nat eqn:E1.
+  - apply Nat.leb_le in E1. rewrite bitlen_bytes. unfold zlen. rewrite firstn_length. lia.
+  - apply Nat.leb_gt in E1. rewrite bitlen_cons, bitlen_bytes, bitlen_repeat. unfold wu8. rewrite bitlen_bits. unfold zlen. lia.
+Qed.
+
+Lemma bitlen_wif c l : bitlen (wif c l) = if c then bitlen l else 0.
+Proof. destruct c; reflexivity. Qed.
+
+Lemma bitlen_flat_map {A} (f : A -> list witem) (g : A -> Z) (l : list A) :
+  (forall x, bitlen (f x) = g x) -> bitlen (flat_map f l) = sumZ g l.
+Proof.
+  intros H. induction l as [|x l IH]; [reflexivity|]. cbn [flat_map sumZ fold_right]. rewrite bitlen_app, H, IH. reflexivity.
+Qed.
+
+Lemma sumZ_const {A} (l : list A) k : sumZ (fun _ => k) l = k * zlen l.
+Proof. unfold zlen. induction l as [|x l IH]; [cbn; lia|]. cbn [sumZ fold_right length]. unfold sumZ in IH. rewrite IH. lia. Qed.
+
+Lemma sumZ_ext {A} (f g : A -> Z) l : (forall x, f x = g x) -> sumZ f l = sumZ g l.
+Proof. intros H. induction l as [|x l IH]; [reflexivity|]. cbn [sumZ fold_right]. unfold sumZ in IH. rewrite H, IH. reflexivity. Qed.
+
+Lemma blen_zlen bs : blen bs = zlen bs. Proof. reflexivity. Qed.
+
+Ltac bl := unfold wu8, wu16, wu32;
+  repeat first [ rewrite bitlen_app | rewrite bitlen_wbytesn | rewrite bitlen_wif | rewrite bitlen_bits
+               | rewrite bitlen_bool | rewrite bitlen_bytes | rewrite bitlen_nil
+               | rewrite (bitlen_cons _ (_ :: _)) ].
+
+(* the DVB time writers behind the local time offset descriptor, through the interface of Model/Dvb.v *)
+Lemma bitlen_enc_dvb_duration_minutes ns : bitlen (enc_dvb_duration_minutes ns) = 16.
+Proof. unfold enc_dvb_duration_minutes. bl. reflexivity. Qed.
+Lemma bitlen_enc_dvb_time t : bitlen (enc_dvb_time t) = 40.
+Proof.
+  unfold enc_dvb_time, enc_dvb_duration_seconds.
+  repeat match goal with |- context [let '(_, _) := ?x in _] => destruct x end.
+  bl. reflexivity.
+Qed.
+
+(* ---- L1: every body writer emits 8 * size bits ---- *)
+
+Lemma bitlen_enc_ac3 v : bitlen (enc_ac3 v) = 8 * size_ac3 v.
+Proof.
+  unfold enc_ac3, size_ac3. bl.
+  destruct (DescriptorAC3_HasComponentType v), (DescriptorAC3_HasBSID v), (DescriptorAC3_HasMainID v), (DescriptorAC3_HasASVC v);
+    cbn [Z.b2z]; bl; lia.
+Qed.
+
+Lemma bitlen_enc_avc_video v : bitlen (enc_avc_video v) = 8 * size_avc_video v.
+Proof. unfold enc_avc_video, size_avc_video. bl. reflexivity. Qed.
+
+Lemma bitlen_enc_component v : bitlen (enc_component v) = 8 * size_component v.
+Proof. unfold enc_component, size_component. bl. lia. Qed.
+
+Lemma bitlen_enc_content v : bitlen (enc_content v) = 8 * size_content v.
+Proof.
+  unfold enc_content, size_content. rewrite (bitlen_flat_map _ (fun _ => 16)).
+  - rewrite sumZ_const. lia.
+  - intros x. unfold enc_content_item. bl. reflexivity.
+Qed.
+
+Lemma bitlen_enc_data_stream_alignment v : bitlen (enc_data_stream_alignment v) = 8 * size_data_stream_alignment v.
+Proof. unfold enc_data_stream_alignment. bl. reflexivity. Qed.
+
+Lemma bitlen_enc_enhanced_ac3 v : bitlen (enc_enhanced_ac3 v) = 8 * size_enhanced_ac3 v.
+Proof.
+  unfold enc_enhanced_ac3, size_enhanced_ac3. bl.
+  destruct (DescriptorEnhancedAC3_HasComponentType v), (DescriptorEnhancedAC3_HasBSID v), (DescriptorEnhancedAC3_HasMainID v),
+    (DescriptorEnhancedAC3_HasASVC v), (DescriptorEnhancedAC3_HasSubStream1 v), (DescriptorEnhancedAC3_HasSubStream2 v),
+    (DescriptorEnhancedAC3_HasSubStream3 v); cbn [Z.b2z]; bl; lia.
+Qed.
+
+Lemma bitlen_enc_extended_event v : bitlen (enc_extended_event v) = 8 * size_extended_event v.
+Proof.
+  unfold enc_extended_event, size_extended_event, size_extended_event_items. bl.
+  rewrite (bitlen_flat_map _ (fun it => 8 * size_extended_event_item it)).
+  - assert (E : forall l, sumZ (fun it => 8 * size_extended_event_item it) l = 8 * sumZ size_extended_event_item l).
+    { induction l as [|x l IH]; [reflexivity|]. cbn [sumZ fold_right]. unfold sumZ in IH. rewrite IH. lia. }
+    rewrite E. lia.
+  - intros it. unfold enc_extended_event_item, size_extended_event_item. bl. lia.
+Qed.
+
+Lemma bitlen_enc_supplementary_audio v :
+  bitlen (enc_extension_supplementary_audio v) = 8 * size_supplementary_audio v.
+Proof.
+  unfold enc_extension_supplementary_audio, size_supplementary_audio. bl.
+  destruct (DescriptorExtensionSupplementaryAudio_HasLanguageCode v); bl; lia.
+Qed.
+
+Lemma bitlen_enc_extension v its : enc_extension v = Ok its -> bitlen its = 8 * size_extension v.
+Proof.
+  unfold enc_extension, size_extension.
+  destruct (DescriptorExtension_Tag v =? C_DescriptorTagExtensionSupplementaryAudio).
+  - destruct (DescriptorExtension_SupplementaryAudio v) as [s|]; cbn [dneed res_map]; [|discriminate].
+    intros H; inversion H; subst. rewrite bitlen_cons, bitlen_enc_supplementary_audio. bl. lia.
+  - intros H; inversion H; subst. destruct (DescriptorExtension_Unknown v); bl; lia.
+Qed.
+
+Lemma bitlen_enc_iso639 v : bitlen (enc_iso639 v) = 8 * size_iso639 v.
+Proof. unfold enc_iso639, size_iso639. bl. reflexivity. Qed.
+
+Lemma bitlen_enc_local_time_offset v : bitlen (enc_local_time_offset v) = 8 * size_local_time_offset v.
+Proof.
+  unfold enc_local_time_offset, size_local_time_offset. rewrite (bitlen_flat_map _ (fun _ => 104)).
+  - rewrite sumZ_const. lia.
+  - intros x. unfold enc_local_time_offset_item. bl.
+    rewrite !bitlen_enc_dvb_duration_minutes, bitlen_enc_dvb_time. reflexivity.
+Qed.
+
+Lemma bitlen_enc_maximum_bitrate v : bitlen (enc_maximum_bitrate v) = 8 * size_maximum_bitrate v.
+Proof. unfold enc_maximum_bitrate. bl. reflexivity. Qed.
+
+Lemma bitlen_enc_network_name v : bitlen (enc_network_name v) = 8 * size_network_name v.
+Proof. unfold enc_network_name, size_network_name. bl. reflexivity. Qed.
+
+Lemma bitlen_enc_parental_rating v : bitlen (enc_parental_rating v) = 8 * size_parental_rating v.
+Proof.
+  unfold enc_parental_rating, size_parental_rating. rewrite (bitlen_flat_map _ (fun _ => 32)).
+  - rewrite sumZ_const. lia.
+  - intros x. unfold enc_parental_rating_item. bl. reflexivity.
+Qed.
+
+Lemma bitlen_enc_private_data_indicator v : bitlen (enc_private_data_indicator v) = 8 * size_private_data_indicator v.
+Proof. unfold enc_private_data_indicator. bl. reflexivity. Qed.
+Lemma bitlen_enc_private_data_specifier v : bitlen (enc_private_data_specifier v) = 8 * size_private_data_specifier v.
+Proof. unfold enc_private_data_specifier. bl. reflexivity. Qed.
+
+Lemma bitlen_enc_registration v : bitlen (enc_registration v) = 8 * size_registration v.
+Proof. unfold enc_registration, size_registration. bl. lia. Qed.
+
+Lemma bitlen_enc_service v : bitlen (enc_service v) = 8 * size_service v.
+Proof. unfold enc_service, size_service. bl. lia. Qed.
+
+Lemma bitlen_enc_short_event v : bitlen (enc_short_event v) = 8 * size_short_event v.
+Proof. unfold enc_short_event, size_short_event. bl. lia. Qed.
+
+Lemma bitlen_enc_stream_identifier v : bitlen (enc_stream_identifier v) = 8 * size_stream_identifier v.
+Proof. unfold enc_stream_identifier. bl. reflexivity. Qed.
+
+Lemma bitlen_enc_subtitling v : bitlen (enc_subtitling v) = 8 * size_subtitling v.
+Proof.
+  unfold enc_subtitling, size_subtitling. rewrite (bitlen_flat_map _ (fun _ => 64)).
+  - rewrite sumZ_const. lia.
+  - intros x. unfold enc_subtitling_item. bl. reflexivity.
+Qed.
+
+Lemma bitlen_enc_teletext v : bitlen (enc_teletext v) = 8 * size_teletext v.
+Proof.
+  unfold enc_teletext, size_teletext. rewrite (bitlen_flat_map _ (fun _ => 40)).
+  - rewrite sumZ_const. lia.
+  - intros x. unfold enc_teletext_item. bl. reflexivity.
+Qed.
+
+(* the six line-based VBI services of the code are those of EN 300 468 table 105 *)
+Lemma is_vbi_line_service_spec id : is_vbi_line_service id = spec_is_vbi_line_service id.
+Proof.
+  unfold is_vbi_line_service, spec_is_vbi_line_service.
+  unfold C_VBIDataServiceIDClosedCaptioning, C_VBIDataServiceIDEBUTeletext, C_VBIDataServiceIDInvertedTeletext,
+    C_VBIDataServiceIDMonochrome442Samples, C_VBIDataServiceIDVPS, C_VBIDataServiceIDWSS.
+  destruct (id =? 1) eqn:?, (id =? 2) eqn:?, (id =? 4) eqn:?, (id =? 5) eqn:?, (id =? 6) eqn:?, (id =? 7) eqn:?; reflexivity.
+Qed.
+
+Lemma bitlen_enc_vbi_data v : bitlen (enc_vbi_data v) = 8 * size_vbi_data v.
+Proof.
+  unfold enc_vbi_data, size_vbi_data.
+  rewrite (bitlen_flat_map _ (fun s => 8 * size_vbi_data_service s)).
+  - induction (DescriptorVBIData_Services v) as [|x l IH]; [reflexivity|]. cbn [sumZ fold_right]. unfold sumZ in IH. rewrite IH. lia.
+  - intros s. unfold enc_vbi_data_service, size_vbi_data_service. rewrite is_vbi_line_service_spec.
+    destruct (spec_is_vbi_line_service _).
+    + rewrite bitlen_cons, (bitlen_cons _ (flat_map _ _)). rewrite (bitlen_flat_map _ (fun _ => 8)).
+      * rewrite sumZ_const. bl. unfold zlen. lia.
+      * intros l. unfold enc_vbi_line. bl. reflexivity.
+    + bl. reflexivity.
+Qed.
+
+Lemma bitlen_enc_unknown v : bitlen (enc_unknown v) = 8 * size_unknown v.
+Proof. unfold enc_unknown, size_unknown. bl. reflexivity. Qed.
+
+(* ---- L2: the length calculators (re-translated from descriptor.go) are the sizes modulo 256 ---- *)
+
+Lemma b2z_if (b : bool) (x : Z) : (if b then x + 1 else x) = x + Z.b2z b.
+Proof. destruct b; cbn [Z.b2z]; lia. Qed.
+
+Lemma calc_ac3_size v : calcDescriptorAC3Length (Some v) = size_ac3 v mod 256.
+Proof. unfold calcDescriptorAC3Length, size_ac3, zlen. cbn [odflt]. rewrite !b2z_if. f_equal. Qed.
+Lemma calc_avc_video_size v : calcDescriptorAVCVideoLength (Some v) = size_avc_video v mod 256.
+Proof. reflexivity. Qed.
+Lemma calc_component_size v : calcDescriptorComponentLength (Some v) = size_component v mod 256.
+Proof. reflexivity. Qed.
+Lemma calc_content_size v : calcDescriptorContentLength (Some v) = size_content v mod 256.
+Proof. reflexivity. Qed.
+Lemma calc_data_stream_alignment_size v : calcDescriptorDataStreamAlignmentLength (Some v) = size_data_stream_alignment v mod 256.
+Proof. reflexivity. Qed.
+Lemma calc_enhanced_ac3_size v : calcDescriptorEnhancedAC3Length (Some v) = size_enhanced_ac3 v mod 256.
+Proof. unfold calcDescriptorEnhancedAC3Length, size_enhanced_ac3, zlen. cbn [odflt]. rewrite !b2z_if. f_equal. Qed.
+
+Lemma extended_event_loop l a :
+  fold_left calcDescriptorExtendedEventLength_loop1 l a = a + sumZ size_extended_event_item l.
+Proof.
+  revert a. induction l as [|x l IH]; intros a; [cbn; lia|].
+  cbn [fold_left sumZ fold_right]. rewrite IH. unfold calcDescriptorExtendedEventLength_loop1, size_extended_event_item, zlen, sumZ. lia.
+Qed.
+Lemma calc_extended_event_size v :
+  calcDescriptorExtendedEventLength (Some v) = (size_extended_event v mod 256, size_extended_event_items v mod 256).
+Proof.
+  unfold calcDescriptorExtendedEventLength, size_extended_event, size_extended_event_items. cbn [odflt].
+  rewrite extended_event_loop. unfold zlen. f_equal; f_equal; lia.
+Qed.
+
+Lemma calc_supplementary_audio_size v :
+  calcDescriptorExtensionSupplementaryAudioLength (Some v) = size_supplementary_audio v.
+Proof.
+  unfold calcDescriptorExtensionSupplementaryAudioLength, size_supplementary_audio, zlen. cbn [odflt].
+  destruct (DescriptorExtensionSupplementaryAudio_HasLanguageCode v); lia.
+Qed.
+Lemma calc_extension_size v : calc_extension_length (Some v) = size_extension v mod 256.
+Proof.
+  unfold calc_extension_length, size_extension.
+  destruct (DescriptorExtension_Tag v =? C_DescriptorTagExtensionSupplementaryAudio).
+  - destruct (DescriptorExtension_SupplementaryAudio v) as [s|]; [rewrite calc_supplementary_audio_size|]; reflexivity.
+  - destruct (DescriptorExtension_Unknown v); f_equal; unfold blen, zlen; lia.
+Qed.
+Lemma calc_iso639_size v : calcDescriptorISO639LanguageAndAudioTypeLength (Some v) = size_iso639 v mod 256.
+Proof. reflexivity. Qed.
+Lemma calc_local_time_offset_size v : calcDescriptorLocalTimeOffsetLength (Some v) = size_local_time_offset v mod 256.
+Proof. reflexivity. Qed.
+Lemma calc_maximum_bitrate_size v : calcDescriptorMaximumBitrateLength (Some v) = size_maximum_bitrate v mod 256.
+Proof. reflexivity. Qed.
+Lemma calc_network_name_size v : calcDescriptorNetworkNameLength (Some v) = size_network_name v mod 256.
+Proof. reflexivity. Qed.
+Lemma calc_parental_rating_size v : calcDescriptorParentalRatingLength (Some v) = size_parental_rating v mod 256.
+Proof. reflexivity. Qed.
+Lemma calc_private_data_indicator_size v : calcDescriptorPrivateDataIndicatorLength (Some v) = size_private_data_indicator v mod 256.
+Proof. reflexivity. Qed.
+Lemma calc_private_data_specifier_size v : calcDescriptorPrivateDataSpecifierLength (Some v) = size_private_data_specifier v mod 256.
+Proof. reflexivity. Qed.
+Lemma calc_registration_size v : calcDescriptorRegistrationLength (Some v) = size_registration v mod 256.
+Proof. reflexivity. Qed.
+Lemma calc_service_size v : calcDescriptorServiceLength (Some v) = size_service v mod 256.
+Proof. unfold calcDescriptorServiceLength, size_service, zlen. cbn [odflt]. f_equal. lia. Qed.
+Lemma calc_short_event_size v : calcDescriptorShortEventLength (Some v) = size_short_event v mod 256.
+Proof. unfold calcDescriptorShortEventLength, size_short_event, zlen. cbn [odflt]. f_equal. Qed.
+Lemma calc_stream_identifier_size v : calcDescriptorStreamIdentifierLength (Some v) = size_stream_identifier v mod 256.
+Proof. reflexivity. Qed.
+Lemma calc_subtitling_size v : calcDescriptorSubtitlingLength (Some v) = size_subtitling v mod 256.
+Proof. reflexivity. Qed.
+Lemma calc_teletext_size v : calcDescriptorTeletextLength (Some v) = size_teletext v mod 256.
+Proof. reflexivity. Qed.
+
+Lemma vbi_data_loop l a : fold_left calcDescriptorVBIDataLength_loop1 l a = a + sumZ size_vbi_data_service l.
+Proof.
+  revert a. induction l as [|x l IH]; intros a; [cbn; lia|].
+  cbn [fold_left sumZ fold_right]. rewrite IH. unfold calcDescriptorVBIDataLength_loop1, size_vbi_data_service, sumZ.
+  fold (is_vbi_line_service (DescriptorVBIDataService_DataServiceID x)). rewrite is_vbi_line_service_spec.
+  destruct (spec_is_vbi_line_service _); unfold zlen; lia.
+Qed.
+Lemma calc_vbi_data_size v : calcDescriptorVBIDataLength (Some v) = size_vbi_data v mod 256.
+Proof. unfold calcDescriptorVBIDataLength, size_vbi_data. cbn [odflt]. rewrite vbi_data_loop. f_equal. Qed.
+Lemma calc_unknown_size v : calcDescriptorUnknownLength (Some v) = size_unknown v mod 256.
+Proof. reflexivity. Qed.
+
+(* ---- the tag dispatch ---- *)
+
+Ltac unfold_tags := unfold C_DescriptorTagAC3, C_DescriptorTagAVCVideo, C_DescriptorTagComponent, C_DescriptorTagContent,
+  C_DescriptorTagDataStreamAlignment, C_DescriptorTagEnhancedAC3, C_DescriptorTagExtendedEvent, C_DescriptorTagExtension,
+  C_DescriptorTagISO639LanguageAndAudioType, C_DescriptorTagLocalTimeOffset, C_DescriptorTagMaximumBitrate,
+  C_DescriptorTagNetworkName, C_DescriptorTagParentalRating, C_DescriptorTagPrivateDataIndicator,
+  C_DescriptorTagPrivateDataSpecifier, C_DescriptorTagRegistration, C_DescriptorTagService, C_DescriptorTagShortEvent,
+  C_DescriptorTagStreamIdentifier, C_DescriptorTagSubtitling, C_DescriptorTagTeletext, C_DescriptorTagVBIData,
+  C_DescriptorTagVBITeletext in *.
+
+Lemma is_user_defined_spec tag : is_user_defined tag = spec_is_user_defined tag.
+Proof. reflexivity. Qed.
+
+Lemma calc_none_0 :
+  calcDescriptorAC3Length None = 0 /\ calcDescriptorAVCVideoLength None = 0 /\ calcDescriptorComponentLength None = 0 /\
+  calcDescriptorContentLength None = 0 /\ calcDescriptorDataStreamAlignmentLength None = 0 /\
+  calcDescriptorEnhancedAC3Length None = 0 /\ fst (calcDescriptorExtendedEventLength None) = 0 /\
+  calc_extension_length None = 0 /\ calcDescriptorISO639LanguageAndAudioTypeLength None = 0 /\
+  calcDescriptorLocalTimeOffsetLength None = 0 /\ calcDescriptorMaximumBitrateLength None = 0 /\
+  calcDescriptorNetworkNameLength None = 0 /\ calcDescriptorParentalRatingLength None = 0 /\
+  calcDescriptorPrivateDataIndicatorLength None = 0 /\ calcDescriptorPrivateDataSpecifierLength None = 0 /\
+  calcDescriptorRegistrationLength None = 0 /\ calcDescriptorServiceLength None = 0 /\ calcDescriptorShortEventLength None = 0 /\
+  calcDescriptorStreamIdentifierLength None = 0 /\ calcDescriptorSubtitlingLength None = 0 /\
+  calcDescriptorTeletextLength None = 0 /\ calcDescriptorVBIDataLength None = 0 /\ calcDescriptorUnknownLength None = 0.
+Proof. repeat split; reflexivity. Qed.
+
+(* calcDescriptorLength is the size of the body the tag selects, modulo 256 *)
+Ltac calc_case L :=
+  match goal with
+  | |- (if ?c then _ else _) = _ => destruct c;
+      [ match goal with
+        | |- fst (_ ?o) = _ => destruct o as [v|]; [cbn [osize]; rewrite L; reflexivity|reflexivity]
+        | |- _ ?o = _ => destruct o as [v|]; [exact (L v)|reflexivity]
+        end | ]
+  end.
+
+Lemma calc_descriptor_length_size d : calc_descriptor_length d = desc_size d mod 256.
+Proof.
+  unfold calc_descriptor_length, desc_size. rewrite is_user_defined_spec. unfold_tags.
+  destruct (spec_is_user_defined (Descriptor_Tag d)); [reflexivity|].
+  calc_case calc_ac3_size. calc_case calc_avc_video_size. calc_case calc_component_size. calc_case calc_content_size.
+  calc_case calc_data_stream_alignment_size. calc_case calc_enhanced_ac3_size. calc_case calc_extended_event_size.
+  calc_case calc_extension_size. calc_case calc_iso639_size. calc_case calc_local_time_offset_size.
+  calc_case calc_maximum_bitrate_size. calc_case calc_network_name_size. calc_case calc_parental_rating_size.
+  calc_case calc_private_data_indicator_size. calc_case calc_private_data_specifier_size. calc_case calc_registration_size.
+  calc_case calc_service_size. calc_case calc_short_event_size. calc_case calc_stream_identifier_size.
+  calc_case calc_subtitling_size. calc_case calc_teletext_size. calc_case calc_vbi_data_size. calc_case calc_teletext_size.
+  destruct (Descriptor_Unknown d) as [v|]; [exact (calc_unknown_size v)|reflexivity].
+Qed.
+
+(* the body writer emits 8 * desc_size bits whenever it returns *)
+Ltac body_case L :=
+  match goal with
+  | |- (if ?c then _ else _) = _ -> _ => destruct c;
+      [ match goal with
+        | |- res_map _ (dneed ?o) = _ -> _ => destruct o as [v|]; cbn [dneed res_map osize]; [|discriminate];
+             let H := fresh "H" in intros H; inversion H; subst; clear H; exact (L v)
+        end | ]
+  end.
+
+Lemma enc_descriptor_body_size d its : enc_descriptor_body d = Ok its -> bitlen its = 8 * desc_size d.
+Proof.
+  unfold enc_descriptor_body, desc_size. rewrite is_user_defined_spec. unfold_tags.
+  destruct (spec_is_user_defined (Descriptor_Tag d)).
+  { intros H; inversion H; subst. bl. reflexivity. }
+  body_case bitlen_enc_ac3. body_case bitlen_enc_avc_video. body_case bitlen_enc_component. body_case bitlen_enc_content.
+  body_case bitlen_enc_data_stream_alignment. body_case bitlen_enc_enhanced_ac3. body_case bitlen_enc_extended_event.
+  destruct (Descriptor_Tag d =? 127).
+  { destruct (Descriptor_Extension d) as [v|]; cbn [dneed res_bind osize]; [|discriminate]. apply bitlen_enc_extension. }
+  body_case bitlen_enc_iso639. body_case bitlen_enc_local_time_offset. body_case bitlen_enc_maximum_bitrate.
+  body_case bitlen_enc_network_name. body_case bitlen_enc_parental_rating. body_case bitlen_enc_private_data_indicator.
+  body_case bitlen_enc_private_data_specifier. body_case bitlen_enc_registration. body_case bitlen_enc_service.
+  body_case bitlen_enc_short_event. body_case bitlen_enc_stream_identifier. body_case bitlen_enc_subtitling.
+  body_case bitlen_enc_teletext. body_case bitlen_enc_vbi_data. body_case bitlen_enc_teletext.
+  destruct (Descriptor_Unknown d) as [v|]; cbn [dneed res_map osize]; [|discriminate].
+  intros H; inversion H; subst. exact (bitlen_enc_unknown v).
+Qed.
+
+(* ---- sizes are non-negative ---- *)
+
+Lemma zlen_nonneg {A} (l : list A) : 0 <= zlen l. Proof. unfold zlen. lia. Qed.
+Lemma sumZ_nonneg {A} (f : A -> Z) l : (forall x, 0 <= f x) -> 0 <= sumZ f l.
+Proof. intros H. induction l as [|x l IH]; [cbn; lia|]. cbn [sumZ fold_right]. unfold sumZ in IH. specialize (H x). lia. Qed.
+Lemma b2z_nonneg b : 0 <= Z.b2z b. Proof. destruct b; cbn; lia. Qed.
+
+Lemma desc_size_nonneg d : 0 <= desc_size d.
+Proof.
+  unfold desc_size.
+  assert (Hs : forall l, 0 <= sumZ size_extended_event_item l).
+  { intros l. apply sumZ_nonneg. intros x. unfold size_extended_event_item. pose proof (zlen_nonneg (DescriptorExtendedEventItem_Description x)).
+    pose proof (zlen_nonneg (DescriptorExtendedEventItem_Content x)). lia. }
+  assert (Hv : forall l, 0 <= sumZ size_vbi_data_service l).
+  { intros l. apply sumZ_nonneg. intros x. unfold size_vbi_data_service. pose proof (zlen_nonneg (DescriptorVBIDataService_Descriptors x)).
+    destruct (spec_is_vbi_line_service _); lia. }
+  repeat match goal with
+  | |- 0 <= (if ?c then _ else _) => destruct c
+  | |- 0 <= zlen _ => apply zlen_nonneg
+  | |- 0 <= osize _ ?o => destruct o as [v|]; cbn [osize]; [|lia]
+  end;
+  unfold size_ac3, size_avc_video, size_component, size_content, size_data_stream_alignment, size_enhanced_ac3,
+    size_extended_event, size_extended_event_items, size_extension, size_supplementary_audio, size_iso639, size_local_time_offset,
+    size_maximum_bitrate, size_network_name, size_parental_rating, size_private_data_indicator, size_private_data_specifier,
+    size_registration, size_service, size_short_event, size_stream_identifier, size_subtitling, size_teletext, size_vbi_data, size_unknown;
+  repeat match goal with
+  | |- context [Z.b2z ?b] => pose proof (b2z_nonneg b); generalize dependent (Z.b2z b); intros
+  | |- context [zlen ?l] => pose proof (zlen_nonneg l); generalize dependent (zlen l); intros
+  | |- context [sumZ size_extended_event_item ?l] => pose proof (Hs l); generalize dependent (sumZ size_extended_event_item l); intros
+  | |- context [sumZ size_vbi_data_service ?l] => pose proof (Hv l); generalize dependent (sumZ size_vbi_data_service l); intros
+  | |- context [match ?o with Some _ => _ | None => _ end] => destruct o
+  | |- context [if ?c then _ else _] => destruct c
+  end; try lia.
+Qed.
+
+(* ---- from bits to bytes ---- *)
+
+Lemma bytes_of_items_zlen a n : items_bytes_ok a -> bitlen a = 8 * n -> zlen (bytes_of_items a) = n.
+Proof.
+  intros Hok Hb. rewrite (chunks_concat a Hok). unfold zlen, bitlen in *.
+  rewrite (bytes_of_bits_length (Z.to_nat n)); lia.
+Qed.
+
+Lemma bytes_of_items_app a b n : items_bytes_ok a -> items_bytes_ok b -> bitlen a = 8 * n ->
+  bytes_of_items (a ++ b) = bytes_of_items a ++ bytes_of_items b.
+Proof.
+  intros Ha Hb Hn. rewrite (chunks_concat _ (items_bytes_ok_app _ _ Ha Hb)), (chunks_concat a Ha), (chunks_concat b Hb).
+  rewrite items_bits_app. apply (bytes_of_bits_app (Z.to_nat n)). unfold bitlen in Hn. lia.
+Qed.
+
+Lemma bits_of_bytes_of_items a n : items_bytes_ok a -> bitlen a = 8 * n -> bits_of_bytes (bytes_of_items a) = items_bits a.
+Proof.
+  intros Hok Hb. rewrite (chunks_concat a Hok). apply (bits_of_bytes_of_bits (Z.to_nat n)). unfold bitlen in Hb. lia.
+Qed.
+
+Lemma items_bytes_ok_app_inv a b : items_bytes_ok (a ++ b) -> items_bytes_ok a /\ items_bytes_ok b.
+Proof. unfold items_bytes_ok. apply Forall_app. Qed.
+
+Lemma bytes_of_two_u8 t c : bytes_of_items [wu8 t; wu8 c] = [t mod 256; c mod 256].
+Proof.
+  rewrite chunks_concat by (repeat constructor). unfold wu8, items_bits. cbn [flat_map item_bits]. rewrite app_nil_r.
+  rewrite bytes_of_bits_8 by apply bits_of_length. rewrite bytes_of_bits_bits_of_8, Z_of_bits_of_mod. reflexivity.
+Qed.
+
+(* ---- one descriptor ---- *)
+
+(* bytes emitted behind the length byte: nothing when the computed length is 0, the whole body otherwise *)
+Definition emitted (d : Descriptor) : Z := if calc_descriptor_length d =? 0 then 0 else desc_size d.
+
+Lemma enc_descriptor_shape d its : enc_descriptor d = Ok its ->
+  exists body, its = [wu8 (Descriptor_Tag d); wu8 (calc_descriptor_length d)] ++ body /\ bitlen body = 8 * emitted d.
+Proof.
+  unfold enc_descriptor, emitted. destruct (calc_descriptor_length d =? 0).
+  - intros H; inversion H; subst. exists []. split; reflexivity.
+  - destruct (enc_descriptor_body d) as [body| |] eqn:E; cbn [res_map]; try discriminate.
+    intros H; inversion H; subst. exists body. split; [reflexivity|]. apply enc_descriptor_body_size. exact E.
+Qed.
+
+(* without uint8 wrap the length byte is the number of body bytes, whatever Descriptor_Length holds *)
+Lemma emitted_nowrap d : desc_size d < 256 -> emitted d = desc_size d /\ calc_descriptor_length d = desc_size d.
+Proof.
+  intros H. pose proof (desc_size_nonneg d). unfold emitted. rewrite calc_descriptor_length_size, Z.mod_small by lia.
+  split; [|reflexivity]. destruct (desc_size d =? 0) eqn:E; lia.
+Qed.
+
+(* with wrap: the length byte is the size modulo 256 and the body is still written in full, except that a
+   size that is a multiple of 256 writes no body at all *)
+Lemma emitted_wrap d : calc_descriptor_length d = desc_size d mod 256 /\
+  emitted d = if desc_size d mod 256 =? 0 then 0 else desc_size d.
+Proof. unfold emitted. rewrite calc_descriptor_length_size. split; reflexivity. Qed.
+
+(* the bytes of one descriptor: tag, length byte, body *)
+Lemma enc_descriptor_bytes d its : enc_descriptor d = Ok its -> items_bytes_ok its ->
+  exists body, bytes_of_items its = [Descriptor_Tag d mod 256; calc_descriptor_length d mod 256] ++ body /\
+               zlen body = emitted d /\ bitlen its = 8 * (2 + emitted d).
+Proof.
+  intros H Hok. destruct (enc_descriptor_shape d its H) as (body & -> & Hb).
+  apply items_bytes_ok_app_inv in Hok. destruct Hok as [Hh Hbody].
+  exists (bytes_of_items body). split; [|split].
+  - rewrite (bytes_of_items_app _ _ 2) by (auto; reflexivity). rewrite bytes_of_two_u8. reflexivity.
+  - apply bytes_of_items_zlen; assumption.
+  - rewrite bitlen_app, Hb. unfold wu8. bl. lia.
+Qed.
+
+(* ---- a loop ---- *)
+
+Definition entry_bytes (d : Descriptor) (body : list Z) : list Z :=
+  [Descriptor_Tag d mod 256; calc_descriptor_length d mod 256] ++ body.
+
+Fixpoint loop_bytes (ds : list Descriptor) (bodies : list (list Z)) : list Z :=
+  match ds, bodies with
+  | d :: ds', b :: bodies' => entry_bytes d b ++ loop_bytes ds' bodies'
+  | _, _ => []
+  end.
+
+Lemma enc_descriptors_bytes ds : forall its, enc_descriptors ds = Ok its -> items_bytes_ok its ->
+  exists bodies, bytes_of_items its = loop_bytes ds bodies /\
+                 Forall2 (fun d b => zlen b = emitted d) ds bodies /\
+                 bitlen its = 8 * sumZ (fun d => 2 + emitted d) ds.
+Proof.
+  induction ds as [|d ds IH]; intros its H Hok.
+  - inversion H; subst. exists []. repeat split; constructor.
+  - cbn [enc_descriptors] in H. destruct (enc_descriptor d) as [a| |] eqn:Ea; cbn [res_bind] in H; try discriminate.
+    destruct (enc_descriptors ds) as [r| |] eqn:Er; cbn [res_map] in H; try discriminate.
+    inversion H; subst. apply items_bytes_ok_app_inv in Hok. destruct Hok as [Hoa Hor].
+    destruct (enc_descriptor_bytes d a Ea Hoa) as (body & Eb & Hl & Hbits).
+    destruct (IH r eq_refl Hor) as (bodies & Ebs & HF & Hbits').
+    exists (body :: bodies). split; [|split].
+    + rewrite (bytes_of_items_app _ _ (2 + emitted d)) by assumption. rewrite Eb, Ebs. reflexivity.
+    + constructor; assumption.
+    + rewrite bitlen_app, Hbits, Hbits'. cbn [sumZ fold_right]. unfold sumZ. lia.
+Qed.
+
+(* calcDescriptorsLength without wrap *)
+Lemma calc_descriptors_length_nowrap ds : Forall (fun d => desc_size d < 256) ds -> loop_size ds < 65536 ->
+  calc_descriptors_length ds = loop_size ds.
+Proof.
+  unfold calc_descriptors_length, loop_size.
+  assert (G : forall ds a, Forall (fun d => desc_size d < 256) ds -> 0 <= a -> a + sumZ (fun d => 2 + desc_size d) ds < 65536 ->
+     fold_left (fun length d => ((length + 2) mod 65536 + calc_descriptor_length d) mod 65536) ds a = a + sumZ (fun d => 2 + desc_size d) ds).
+  { clear. induction ds as [|d ds IH]; intros a HF Ha Hs; [cbn; lia|].
+    inversion HF; subst. cbn [fold_left sumZ fold_right] in *. fold (sumZ (fun d => 2 + desc_size d) ds) in *.
+    pose proof (desc_size_nonneg d). assert (0 <= sumZ (fun d => 2 + desc_size d) ds).
+    { apply sumZ_nonneg. intros x. pose proof (desc_size_nonneg x). lia. }
+    destruct (emitted_nowrap d H1) as [_ Ec]. rewrite Ec.
+    rewrite (Z.mod_small (a + 2)) by lia. rewrite Z.mod_small by lia. rewrite IH by (auto; lia). lia. }
+  intros HF Hs. rewrite G by (auto; lia). lia.
+Qed.
+
+(* C14_len: the loop length and every length byte equal the bytes actually emitted, for arbitrary
+   Descriptor_Length fields, provided no body exceeds 255 bytes and the loop 4095 *)
+Theorem descriptors_with_length_exact ds out :
+  enc_descriptors_with_length ds = Ok out -> items_bytes_ok out ->
+  Forall (fun d => desc_size d < 256) ds -> loop_size ds < 4096 ->
+  let bytes := bytes_of_items out in
+  exists hdr bodies,
+    bytes = hdr ++ loop_bytes ds bodies /\ zlen hdr = 2 /\
+    Forall2 (fun d b => zlen b = calc_descriptor_length d /\ zlen b = desc_size d) ds bodies /\
+    bitsf bytes 4 12 = zlen bytes - 2 /\
+    zlen bytes = 2 + loop_size ds.
+Proof.
+  intros H Hok HF Hs bytes. unfold enc_descriptors_with_length in H.
+  destruct (enc_descriptors ds) as [its| |] eqn:E; cbn [res_map] in H; try discriminate.
+  assert (Eo : out = [WBits 4 255; WBits 12 (calc_descriptors_length ds)] ++ its) by (inversion H; reflexivity).
+  subst out; clear H.
+  apply items_bytes_ok_app_inv in Hok. destruct Hok as [Hoh Hoi].
+  destruct (enc_descriptors_bytes ds its E Hoi) as (bodies & Eb & HF2 & Hbits).
+  assert (Esum : sumZ (fun d => 2 + emitted d) ds = loop_size ds).
+  { unfold loop_size. clear -HF. induction HF as [|d ds Hd _ IH]; [reflexivity|]. cbn [sumZ fold_right]. unfold sumZ in IH. rewrite IH.
+    destruct (emitted_nowrap d Hd) as [-> _]. reflexivity. }
+  assert (Hh : bitlen [WBits 4 255; WBits 12 (calc_descriptors_length ds)] = 8 * 2) by (bl; reflexivity).
+  assert (Hlen : zlen bytes = 2 + loop_size ds).
+  { unfold bytes. apply bytes_of_items_zlen; [apply items_bytes_ok_app; assumption|]. rewrite bitlen_app, Hh, Hbits, Esum. lia. }
+  exists (bytes_of_items [WBits 4 255; WBits 12 (calc_descriptors_length ds)]), bodies.
+  split; [|split; [|split; [|split]]].
+  - unfold bytes. rewrite (bytes_of_items_app _ _ 2) by assumption. rewrite Eb. reflexivity.
+  - apply bytes_of_items_zlen; assumption.
+  - clear -HF HF2. induction HF2 as [|d b ds bodies Hb _ IH]; [constructor|]. inversion HF; subst.
+    constructor; [|apply IH; assumption]. destruct (emitted_nowrap d H1) as [E1 E2]. rewrite E2. lia.
+  - rewrite Hlen. unfold bytes, bitsf.
+    rewrite (bits_of_bytes_of_items _ (2 + loop_size ds)).
+    2:{ apply items_bytes_ok_app; assumption. }
+    2:{ rewrite bitlen_app, Hh, Hbits, Esum. lia. }
+    rewrite items_bits_app. unfold items_bits at 1. cbn [flat_map item_bits]. rewrite app_nil_r, <- app_assoc.
+    rewrite (field_skip 4) by lia. change (4 - 4)%nat with 0%nat. rewrite field_here_mod.
+    pose proof (sumZ_nonneg (fun d => 2 + desc_size d) ds) as Hnn. unfold loop_size in *.
+    rewrite calc_descriptors_length_nowrap by (auto; unfold loop_size; lia). unfold loop_size.
+    rewrite Z.mod_small; [lia|]. split; [apply Hnn; intros x; pose proof (desc_size_nonneg x); lia|]. change (2 ^ Z.of_nat 12) with 4096. lia.
+  - exact Hlen.
+Qed.
+
+(* ================= part B: TLV framing of parseDescriptors ================= *)
+
+(* a parser that never touches the byte slice of the iterator *)
+Definition pres {A} (m : IM A) : Prop := forall i a i', m i = Ok (a, i') -> ibs i' = ibs i.
+Definition body_pres (body : Z -> Z -> Z -> IM Descriptor) : Prop := forall t l e, pres (body t l e).
+(* a body parser that reports the tag and length it was given *)
+Definition body_hdr (body : Z -> Z -> Z -> IM Descriptor) : Prop :=
+  forall t l e i d i', body t l e i = Ok (d, i') -> Descriptor_Tag d = t /\ Descriptor_Length d = l.
+
+Lemma pres_ret {A} (a : A) : pres (iret a).
+Proof. intros i x i' H. inversion H; reflexivity. Qed.
+Lemma pres_err {A} c : pres (@ierr A c). Proof. intros i x i' H. discriminate. Qed.
+Lemma pres_panic {A} : pres (@ipanic A). Proof. intros i x i' H. discriminate. Qed.
+Lemma pres_bind {A B} (m : IM A) (f : A -> IM B) : pres m -> (forall a, pres (f a)) -> pres (ibind m f).
+Proof.
+  intros Hm Hf i b i' H. unfold ibind in H. destruct (m i) as [[a i1]| |] eqn:E; try discriminate.
+  rewrite (Hf a i1 b i' H). apply (Hm i a i1 E).
+Qed.
+Lemma pres_next_byte : pres next_byte.
+Proof. intros i b i' H. apply next_byte_ok in H. tauto. Qed.
+Lemma pres_next_bytes n : pres (next_bytes n).
+Proof. intros i b i' H. apply next_bytes_ok in H. tauto. Qed.
+Lemma pres_next_bytes_nocopy n : pres (next_bytes_nocopy n).
+Proof. apply pres_next_bytes. Qed.
+Lemma pres_ioffset : pres ioffset. Proof. intros i b i' H. inversion H; reflexivity. Qed.
+Lemma pres_iseek n : pres (iseek n). Proof. intros i b i' H. inversion H; reflexivity. Qed.
+Lemma pres_iloop_fuel {A} (item : IM A) e : pres item -> forall k, pres (iloop_fuel k e item).
+Proof.
+  intros Hi k. induction k as [|k IH]; cbn [iloop_fuel]; [apply pres_err|].
+  apply pres_bind; [apply pres_ioffset|]. intros off. destruct (off <? e); [|apply pres_ret].
+  apply pres_bind; [exact Hi|]. intros a. apply pres_bind; [exact IH|]. intros r. apply pres_ret.
+Qed.
+Lemma pres_iloop {A} (item : IM A) e : pres item -> pres (iloop e item).
+Proof. intros Hi. unfold iloop. apply pres_bind; [apply pres_ioffset|]. intros off. apply pres_iloop_fuel. exact Hi. Qed.
+
+Ltac pres_step :=
+  match goal with
+  | |- pres (ibind _ _) => apply pres_bind; [|intros ?]
+  | |- pres (iret _) => apply pres_ret
+  | |- pres (ierr _) => apply pres_err
+  | |- pres ipanic => apply pres_panic
+  | |- pres next_byte => apply pres_next_byte
+  | |- pres (next_bytes _) => apply pres_next_bytes
+  | |- pres (next_bytes_nocopy _) => apply pres_next_bytes_nocopy
+  | |- pres ioffset => apply pres_ioffset
+  | |- pres (iseek _) => apply pres_iseek
+  | |- pres (iloop _ _) => apply pres_iloop
+  | |- pres (if ?c then _ else _) => destruct c
+  | |- pres (match ?l with [] => _ | _ :: _ => _ end) => destruct l
+  end.
+Ltac pres_tac := repeat pres_step.
+
+(* the DVB parsers behind the interface of Model/Dvb.v *)
+Lemma pres_parse_dvb_duration_minutes : pres parse_dvb_duration_minutes.
+Proof. unfold parse_dvb_duration_minutes. pres_tac. Qed.
+Lemma pres_parse_dvb_duration_seconds : pres parse_dvb_duration_seconds.
+Proof. unfold parse_dvb_duration_seconds. pres_tac. Qed.
+Lemma pres_parse_dvb_time : pres parse_dvb_time.
+Proof. unfold parse_dvb_time. pres_tac. apply pres_parse_dvb_duration_seconds. Qed.
+
+Lemma pres_parse_descriptor_body : body_pres parse_descriptor_body.
+Proof.
+  intros t l e. unfold parse_descriptor_body.
+  repeat match goal with |- pres (if ?c then _ else _) => destruct c end;
+  unfold new_descriptor_ac3, new_descriptor_avc_video, new_descriptor_component, new_descriptor_content, content_item,
+    new_descriptor_data_stream_alignment, new_descriptor_enhanced_ac3, new_descriptor_extended_event,
+    new_descriptor_extended_event_item, new_descriptor_extension, new_descriptor_extension_supplementary_audio,
+    new_descriptor_iso639, new_descriptor_local_time_offset, local_time_offset_item, new_descriptor_maximum_bitrate,
+    new_descriptor_network_name, new_descriptor_parental_rating, parental_rating_item, new_descriptor_private_data_indicator,
+    new_descriptor_private_data_specifier, new_descriptor_registration, new_descriptor_service, new_descriptor_short_event,
+    new_descriptor_stream_identifier, new_descriptor_subtitling, subtitling_item, new_descriptor_teletext, teletext_item,
+    new_descriptor_unknown, new_descriptor_vbi_data, vbi_data_service, opt_byte, rest_bytes, bytes_to;
+  pres_tac;
+  first [ apply pres_parse_dvb_duration_minutes | apply pres_parse_dvb_time ].
+Qed.
+
+Lemma hdr_parse_descriptor_body : body_hdr parse_descriptor_body.
+Proof.
+  intros t l e i d i'. unfold parse_descriptor_body.
+  repeat match goal with |- (if ?c then _ else _) _ = _ -> _ => destruct c end;
+  unfold ibind;
+  match goal with |- match ?m i with _ => _ end = _ -> _ => destruct (m i) as [[v i1]| |]; try discriminate end;
+  unfold iret; intros H; inversion H; subst; split; reflexivity.
+Qed.
+
+(* ---- reading the two header bytes ---- *)
+
+Lemma nth_skipn {A} (l : list A) n k d : nth k (skipn n l) d = nth (n + k) l d.
+Proof. revert l. induction n as [|n IH]; intros l; [reflexivity|]. destruct l; [destruct k; reflexivity|]. cbn [skipn]. rewrite IH. reflexivity. Qed.
+
+Lemma next_two bs pos r i' : next_bytes_nocopy 2 (mk_iter bs pos) = Ok (r, i') ->
+  0 <= pos /\ pos + 2 <= zlen bs /\ i' = mk_iter bs (pos + 2) /\
+  byte_at r 0 = byte_of bs pos /\ byte_at r 1 = byte_of bs (pos + 1) /\ length r = 2%nat.
+Proof.
+  intros H. apply next_bytes_ok in H. cbn [ibs ioff] in H. destruct H as (_ & Hp & Hl & Hbs & Hoff & Hr).
+  unfold ilen in Hl; cbn [ibs] in Hl. split; [lia|]. split; [exact Hl|]. split.
+  { destruct i'; cbn in *; subst; reflexivity. }
+  subst r. unfold byte_at, byte_of, slice. replace (pos + 2 - pos) with 2 by lia.
+  assert (Hlen : (2 <= length (skipn (Z.to_nat pos) bs))%nat) by (rewrite skipn_length; unfold zlen in Hl; lia).
+  destruct (skipn (Z.to_nat pos) bs) as [|x [|y l]] eqn:E; cbn [length] in Hlen; try lia.
+  cbn [Z.to_nat Pos.to_nat Pos.iter_op firstn nth length]. 
+  pose proof (nth_skipn bs (Z.to_nat pos) 0 0) as N0. pose proof (nth_skipn bs (Z.to_nat pos) 1 0) as N1.
+  rewrite E in N0, N1. cbn [nth] in N0, N1. rewrite Nat.add_0_r in N0.
+  replace (Z.to_nat (pos + 1)) with (Z.to_nat pos + 1)%nat by lia. auto.
+Qed.
+
+(* ---- one round ---- *)
+
+Lemma parse_descriptor_with_spec body bs pos d i' : body_pres body ->
+  parse_descriptor_with body (mk_iter bs pos) = Ok (d, i') ->
+  0 <= pos /\ pos + 2 <= zlen bs /\ ibs i' = bs /\
+  ((byte_of bs (pos + 1) <= 0 /\ d = desc_hdr (byte_of bs pos) (byte_of bs (pos + 1)) /\ ioff i' = pos + 2) \/
+   (0 < byte_of bs (pos + 1) /\ ioff i' = pos + 2 + byte_of bs (pos + 1) /\
+    exists i1, body (byte_of bs pos) (byte_of bs (pos + 1)) (pos + 2 + byte_of bs (pos + 1)) (mk_iter bs (pos + 2)) = Ok (d, i1))).
+Proof.
+  intros Hp H. unfold parse_descriptor_with, ibind in H.
+  destruct (next_bytes_nocopy 2 (mk_iter bs pos)) as [[r i1]| |] eqn:E; try discriminate.
+  apply next_two in E. destruct E as (H0 & H2 & -> & Et & El & _). rewrite Et, El in H.
+  split; [exact H0|]. split; [exact H2|].
+  destruct (byte_of bs (pos + 1) >? 0) eqn:Eg.
+  - unfold ioffset in H. cbn [ioff] in H.
+    destruct (body _ _ _ (mk_iter bs (pos + 2))) as [[d1 i2]| |] eqn:Eb; try discriminate.
+    unfold iseek, iret in H. inversion H; subst. cbn [ibs ioff].
+    split; [apply (Hp _ _ _ _ _ _ Eb)|]. right. split; [lia|]. split; [reflexivity|]. eexists; reflexivity.
+  - unfold iret in H. inversion H; subst. cbn [ibs ioff]. split; [reflexivity|]. left. split; [lia|]. auto.
+Qed.
+
+(* ---- the loop ---- *)
+
+Lemma descriptor_loop_spec body bs endp : body_pres body -> forall k pos ds i',
+  iloop_fuel k endp (parse_descriptor_with body) (mk_iter bs pos) = Ok (ds, i') ->
+  ibs i' = bs /\ tlv_parse desc_hdr body bs endp pos ds (ioff i').
+Proof.
+  intros Hp. induction k as [|k IH]; intros pos ds i' H; [discriminate|].
+  cbn [iloop_fuel] in H. unfold ibind at 1 in H. unfold ioffset at 1 in H. cbn [ioff] in H.
+  destruct (pos <? endp) eqn:El.
+  - unfold ibind at 1 in H.
+    destruct (parse_descriptor_with body (mk_iter bs pos)) as [[d i1]| |] eqn:Ed; try discriminate.
+    unfold ibind at 1 in H. destruct i1 as [bs1 off1].
+    destruct (parse_descriptor_with_spec body bs pos d _ Hp Ed) as (H0 & H2 & Hbs & Hcase). cbn [ibs ioff] in Hbs, Hcase. subst bs1.
+    destruct (iloop_fuel k endp (parse_descriptor_with body) (mk_iter bs off1)) as [[r i2]| |] eqn:Er; try discriminate.
+    unfold iret in H. inversion H; subst. destruct (IH _ _ _ Er) as [Hb Ht]. split; [exact Hb|].
+    destruct Hcase as [(Hz & -> & Ho)|(Hz & Ho & i3 & Eb)]; subst off1.
+    + apply tlv_parse_empty; try assumption; lia.
+    + eapply tlv_parse_body; try eassumption; lia.
+  - unfold iret in H. inversion H; subst. cbn [ibs ioff]. split; [reflexivity|]. apply tlv_parse_done. lia.
+Qed.
+
+(* the 12 bits of the loop length *)
+Lemma bits_of_split a b v : bits_of (a + b) v = bits_of a (v / 2 ^ Z.of_nat b) ++ bits_of b v.
+Proof.
+  induction a as [|a IH]; [reflexivity|]. cbn [Nat.add bits_of app]. rewrite IH. f_equal.
+  rewrite Z.div_pow2_bits by lia. f_equal. lia.
+Qed.
+
+Lemma Z_of_bits_app l1 l2 : Z_of_bits (l1 ++ l2) = Z_of_bits l1 * 2 ^ Z.of_nat (length l2) + Z_of_bits l2.
+Proof.
+  unfold Z_of_bits. rewrite Z_of_bits_acc_app. generalize (Z_of_bits_acc l1 0) as acc. intros acc.
+  rewrite <- (bits_of_Z_of_bits l2) at 1. rewrite Z_of_bits_acc_bits_of.
+  pose proof (Z_of_bits_range l2). fold (Z_of_bits l2). rewrite Z.mod_small by exact H. reflexivity.
+Qed.
+
+Lemma loop_length_bits r b0 b1 : length r = 2%nat -> byte_at r 0 = b0 -> byte_at r 1 = b1 ->
+  bitsf r 4 12 = (b0 mod 16) * 256 + b1 mod 256.
+Proof.
+  intros Hl E0 E1. destruct r as [|x [|y [|z r]]]; try discriminate. unfold byte_at in *. cbn [nth] in *. subst.
+  unfold bitsf, bits_of_bytes. cbn [flat_map]. rewrite app_nil_r.
+  change 8%nat with (4 + 4)%nat at 1. rewrite bits_of_split, <- app_assoc.
+  rewrite (field_skip 4) by lia. change (4 - 4)%nat with 0%nat.
+  unfold field. cbn [skipn]. rewrite firstn_all2 by (rewrite app_length, !bits_of_length; lia).
+  rewrite Z_of_bits_app, !Z_of_bits_of_mod, bits_of_length. reflexivity.
+Qed.
+
+(* parseDescriptors with any body parser that leaves the byte slice alone: on success the descriptors are the
+   results of the body parser on the TLV entries of the loop, each started at its own entry, and the iterator
+   is left where the entries end *)
+Theorem parse_descriptors_tlv body bs pos ds i' : body_pres body ->
+  parse_descriptors_with body (mk_iter bs pos) = Ok (ds, i') ->
+  0 <= pos /\ pos + 2 <= zlen bs /\ ibs i' = bs /\
+  tlv_parse desc_hdr body bs (pos + 2 + loop_length_at bs pos) (pos + 2) ds (ioff i').
+Proof.
+  intros Hp H. unfold parse_descriptors_with in H. unfold ibind at 1 in H.
+  destruct (next_bytes_nocopy 2 (mk_iter bs pos)) as [[r i1]| |] eqn:E; try discriminate.
+  apply next_two in E. destruct E as (H0 & H2 & -> & Et & El & Hr).
+  rewrite (loop_length_bits r _ _ Hr Et El) in H. fold (loop_length_at bs pos) in H.
+  split; [exact H0|]. split; [exact H2|].
+  destruct (loop_length_at bs pos >? 0) eqn:Eg.
+  - unfold ibind at 1 in H. unfold ioffset at 1 in H. cbn [ioff] in H. unfold iloop, ibind at 1, ioffset at 1 in H. cbn [ioff] in H.
+    apply (descriptor_loop_spec body bs _ Hp) in H. exact H.
+  - unfold iret in H. inversion H; subst. cbn [ibs ioff]. split; [reflexivity|]. apply tlv_parse_done. lia.
+Qed.
+
+(* the entries are a function of the bytes alone *)
+Lemma tlv_chain_det bs endp pos es fin : tlv_chain bs endp pos es fin ->
+  forall es' fin', tlv_chain bs endp pos es' fin' -> es' = es /\ fin' = fin.
+Proof.
+  induction 1 as [pos Hge|pos es fin Hlt H0 H2 _ IH]; intros es' fin' H'; inversion H'; subst; try lia.
+  - split; reflexivity.
+  - match goal with Hc : tlv_chain _ _ _ _ fin' |- _ => destruct (IH _ _ Hc) as [-> ->] end. split; reflexivity.
+Qed.
+
+(* the walk stops at the first entry boundary that is not before the declared end of the loop *)
+Lemma tlv_chain_fin bs endp pos es fin : tlv_chain bs endp pos es fin -> endp <= fin.
+Proof. induction 1; lia. Qed.
+
+Lemma byte_of_range bs p : bytes_ok bs -> 0 <= byte_of bs p < 256.
+Proof.
+  intros H. unfold byte_of. destruct (nth_in_or_default (Z.to_nat p) bs 0) as [Hin|Hd]; [|lia].
+  unfold bytes_ok in H. rewrite Forall_forall in H. apply H in Hin. exact Hin.
+Qed.
+
+(* tags and lengths returned = tags and lengths of the entries (for byte strings: every element in 0..255) *)
+Lemma tlv_parse_chain body bs endp pos ds fin : body_hdr body -> bytes_ok bs ->
+  tlv_parse desc_hdr body bs endp pos ds fin ->
+  exists es, tlv_chain bs endp pos es fin /\
+             map (fun d => (Descriptor_Tag d, Descriptor_Length d)) ds = map (fun e => (snd (fst e), snd e)) es.
+Proof.
+  intros Hh Hok. induction 1 as [pos Hge|pos ds fin Hlt H0 H2 Hz _ IH|pos d i' ds fin Hlt H0 H2 Hz Eb _ IH].
+  - exists []. split; [constructor; exact Hge|reflexivity].
+  - destruct IH as (es & Hc & Hm). exists ((pos, byte_of bs pos, byte_of bs (pos + 1)) :: es).
+    pose proof (byte_of_range bs (pos + 1) Hok) as Hr. assert (Ez : byte_of bs (pos + 1) = 0) by lia. split.
+    + constructor; try assumption. rewrite Ez. replace (pos + 2 + 0) with (pos + 2) by lia. exact Hc.
+    + cbn [map fst snd]. rewrite Hm. reflexivity.
+  - destruct IH as (es & Hc & Hm). destruct (Hh _ _ _ _ _ _ Eb) as [Et El].
+    exists ((pos, byte_of bs pos, byte_of bs (pos + 1)) :: es). split; [constructor; assumption|].
+    cbn [map fst snd]. rewrite Hm, Et, El. reflexivity.
+Qed.
+
+(* C14_tlv for the concrete parser *)
+Theorem parse_descriptors_framing bs pos ds i' : bytes_ok bs ->
+  parse_descriptors (mk_iter bs pos) = Ok (ds, i') ->
+  let endp := pos + 2 + loop_length_at bs pos in
+  ibs i' = bs /\
+  tlv_parse desc_hdr parse_descriptor_body bs endp (pos + 2) ds (ioff i') /\
+  exists es, tlv_chain bs endp (pos + 2) es (ioff i') /\
+             map (fun d => (Descriptor_Tag d, Descriptor_Length d)) ds = map (fun e => (snd (fst e), snd e)) es /\
+             endp <= ioff i'.
+Proof.
+  intros Hok H endp. destruct (parse_descriptors_tlv _ _ _ _ _ pres_parse_descriptor_body H) as (H0 & H2 & Hbs & Ht).
+  split; [exact Hbs|]. split; [exact Ht|].
+  destruct (tlv_parse_chain _ _ _ _ _ _ hdr_parse_descriptor_body Hok Ht) as (es & Hc & Hm).
+  exists es. split; [exact Hc|]. split; [exact Hm|]. apply (tlv_chain_fin _ _ _ _ _ Hc).
+Qed.
+
+(* when the entries tile the loop exactly (the last one ends at the declared end), parseDescriptors consumes
+   exactly 2 + loop length bytes *)
+Lemma tlv_chain_exact bs endp pos es fin : tlv_chain bs endp pos es fin ->
+  (es = [] /\ fin = pos) \/ (es <> [] /\ exists p t l, last es (0, 0, 0) = (p, t, l) /\ fin = p + 2 + l).
+Proof.
+  induction 1 as [pos Hge|pos es fin Hlt H0 H2 Hc IH]; [left; auto|right]. split; [discriminate|].
+  destruct IH as [[-> ->]|(Hne & p & t & l & El & Ef)].
+  - do 3 eexists. split; reflexivity.
+  - exists p, t, l. split; [|exact Ef]. destruct es; [contradiction|exact El].
+Qed.
+
+(* ================= part C: round trips ================= *)
+
+Lemma zlen_app {A} (a b : list A) : zlen (a ++ b) = zlen a + zlen b.
+Proof. unfold zlen. rewrite app_length. lia. Qed.
+Lemma zlen_cons {A} (x : A) l : zlen (x :: l) = 1 + zlen l.
+Proof. unfold zlen. cbn [length]. lia. Qed.
+Lemma zlen_nil {A} : zlen (@nil A) = 0. Proof. reflexivity. Qed.
+
+(* symbolic execution of the iterator on a buffer split as consumed ++ remaining *)
+Lemma next_byte_step pre b rest :
+  next_byte (mk_iter (pre ++ b :: rest) (zlen pre)) = Ok (b, mk_iter ((pre ++ [b]) ++ rest) (zlen (pre ++ [b]))).
+Proof.
+  unfold next_byte, ilen. cbn [ibs ioff]. unfold zlen. rewrite !app_length. cbn [length].
+  destruct (_ <? _) eqn:E1; [lia|]. destruct (Z.of_nat (length pre) <? 0) eqn:E2; [lia|].
+  rewrite Nat2Z.id, app_nth2, Nat.sub_diag by lia. cbn [nth]. rewrite <- app_assoc. cbn [app]. do 3 f_equal. lia.
+Qed.
+
+Lemma slice_mid pre a rest : slice (pre ++ a ++ rest) (zlen pre) (zlen pre + zlen a) = a.
+Proof.
+  unfold slice, zlen. replace (Z.of_nat (length pre) + Z.of_nat (length a) - Z.of_nat (length pre)) with (Z.of_nat (length a)) by lia.
+  rewrite !Nat2Z.id. rewrite skipn_app, skipn_all, Nat.sub_diag. cbn [skipn app].
+  rewrite firstn_app, Nat.sub_diag, firstn_O, app_nil_r. apply firstn_all.
+Qed.
+
+Lemma next_bytes_step pre a rest n : zlen a = n ->
+  next_bytes n (mk_iter (pre ++ a ++ rest) (zlen pre)) = Ok (a, mk_iter ((pre ++ a) ++ rest) (zlen (pre ++ a))).
+Proof.
+  intros Hn. unfold next_bytes, ilen. cbn [ibs ioff]. pose proof (zlen_nonneg a). pose proof (zlen_nonneg pre). pose proof (zlen_nonneg rest).
+  replace (Z.of_nat (length (pre ++ a ++ rest))) with (zlen pre + zlen a + zlen rest) by (unfold zlen; rewrite !app_length; lia).
+  destruct (_ <? _) eqn:E1; [lia|]. destruct (n <? 0) eqn:E2; [lia|]. destruct (zlen pre <? 0) eqn:E3; [lia|].
+  subst n. rewrite slice_mid, zlen_app, <- app_assoc. reflexivity.
+Qed.
+
+Lemma next_bytes_nocopy_step pre a rest n : zlen a = n ->
+  next_bytes_nocopy n (mk_iter (pre ++ a ++ rest) (zlen pre)) = Ok (a, mk_iter ((pre ++ a) ++ rest) (zlen (pre ++ a))).
+Proof. apply next_bytes_step. Qed.
+
+Lemma ioffset_step bs off : ioffset (mk_iter bs off) = Ok (off, mk_iter bs off).
+Proof. reflexivity. Qed.
+
+(* bytes of item lists *)
+Lemma bytes_of_items_cons_u8 x l : items_bytes_ok l -> bytes_of_items (wu8 x :: l) = (x mod 256) :: bytes_of_items l.
+Proof.
+  intros Hl. change (wu8 x :: l) with ([wu8 x] ++ l). rewrite (bytes_of_items_app _ _ 1); [|repeat constructor|exact Hl|unfold wu8; bl; reflexivity].
+  rewrite chunks_concat by (repeat constructor). unfold wu8, items_bits. cbn [flat_map item_bits]. rewrite app_nil_r, bytes_of_bits_bits_of_8. reflexivity.
+Qed.
+
+Lemma bytes_of_items_cons_bytes a l : bytes_ok a -> items_bytes_ok l -> bytes_of_items (WBytes a :: l) = a ++ bytes_of_items l.
+Proof.
+  intros Ha Hl. change (WBytes a :: l) with ([WBytes a] ++ l).
+  rewrite (bytes_of_items_app _ _ (zlen a)); [|repeat constructor; exact Ha|exact Hl|bl; reflexivity].
+  f_equal. rewrite chunks_concat by (repeat constructor; exact Ha). unfold items_bits. cbn [flat_map item_bits]. rewrite app_nil_r.
+  apply bytes_of_bits_of_bytes. exact Ha.
+Qed.
+
+Lemma bytes_of_items_nil : bytes_of_items [] = []. Proof. reflexivity. Qed.
+
+(* a group of items that fills n whole bytes: its bytes read back as its bits *)
+Lemma bytes_of_group g n : items_bytes_ok g -> bitlen g = 8 * n ->
+  zlen (bytes_of_items g) = n /\ bits_of_bytes (bytes_of_items g) = items_bits g.
+Proof. intros Hok Hb. split; [apply bytes_of_items_zlen; assumption|apply (bits_of_bytes_of_items _ n); assumption]. Qed.
+
+Lemma items_ok_cons_bits w v l : items_bytes_ok l -> items_bytes_ok (WBits w v :: l).
+Proof. intros. constructor; [exact I|assumption]. Qed.
+Lemma items_ok_cons_bool b l : items_bytes_ok l -> items_bytes_ok (WBool b :: l).
+Proof. intros. constructor; [exact I|assumption]. Qed.
+Lemma items_ok_cons_bytes a l : bytes_ok a -> items_bytes_ok l -> items_bytes_ok (WBytes a :: l).
+Proof. intros. constructor; assumption. Qed.
+Lemma items_ok_nil : items_bytes_ok []. Proof. constructor. Qed.
+Ltac iok := unfold wu8, wu16, wu32; repeat first [ apply items_ok_nil | apply items_ok_cons_bits | apply items_ok_cons_bool
+  | apply items_ok_cons_bytes; [assumption|] | apply items_bytes_ok_app ]; try assumption.
+
+Lemma bitsf_prefix2 a b l : bitsf (a :: b :: l) 4 12 = bitsf [a; b] 4 12.
+Proof. unfold bitsf, bits_of_bytes, field. cbn [flat_map bits_of app skipn firstn]. reflexivity. Qed.
+
+Lemma iloop_fuel_done {A} k e (item : IM A) bs off : e <= off ->
+  iloop_fuel (S k) e item (mk_iter bs off) = Ok ([], mk_iter bs off).
+Proof. intros H. cbn [iloop_fuel]. unfold ibind, ioffset. cbn [ioff]. destruct (off <? e) eqn:E; [lia|reflexivity]. Qed.
+
+(* ---- completeness of the TLV characterisation: whenever the entries can be walked and every body parser
+   succeeds at its own entry, parseDescriptors succeeds with exactly those results ---- *)
+
+Lemma next_two_run bs pos : 0 <= pos -> pos + 2 <= zlen bs ->
+  exists r, next_bytes_nocopy 2 (mk_iter bs pos) = Ok (r, mk_iter bs (pos + 2)) /\
+            byte_at r 0 = byte_of bs pos /\ byte_at r 1 = byte_of bs (pos + 1) /\ length r = 2%nat.
+Proof.
+  intros H0 H2. destruct (next_bytes_nocopy 2 (mk_iter bs pos)) as [[r i1]| |] eqn:E.
+  - destruct (next_two _ _ _ _ E) as (_ & _ & -> & Ha & Hb & Hc). exists r. auto.
+  - exfalso. unfold next_bytes_nocopy, next_bytes, ilen in E. cbn [ibs ioff] in E. fold (zlen bs) in E.
+    destruct (zlen bs <? pos + 2) eqn:E1; [lia|]. cbn [Z.ltb Z.compare] in E. destruct (pos <? 0) eqn:E3; [lia|discriminate].
+  - exfalso. unfold next_bytes_nocopy, next_bytes, ilen in E. cbn [ibs ioff] in E. fold (zlen bs) in E.
+    destruct (zlen bs <? pos + 2) eqn:E1; [lia|]. cbn [Z.ltb Z.compare] in E. destruct (pos <? 0) eqn:E3; [lia|discriminate].
+Qed.
+
+Lemma tlv_parse_count body bs endp pos ds fin : tlv_parse desc_hdr body bs endp pos ds fin ->
+  zlen ds <= Z.max 0 (endp - pos).
+Proof. induction 1; rewrite ?zlen_cons, ?zlen_nil; lia. Qed.
+
+Lemma descriptor_loop_complete body bs endp : body_pres body -> forall pos ds fin,
+  tlv_parse desc_hdr body bs endp pos ds fin -> forall k, (length ds < k)%nat ->
+  iloop_fuel k endp (parse_descriptor_with body) (mk_iter bs pos) = Ok (ds, mk_iter bs fin).
+Proof.
+  intros Hp. induction 1 as [pos Hge|pos ds fin Hlt H0 H2 Hz _ IH|pos d i' ds fin Hlt H0 H2 Hz Eb _ IH]; intros k Hk.
+  - destruct k; [lia|]. apply iloop_fuel_done. exact Hge.
+  - destruct k; [lia|]. cbn [iloop_fuel]. unfold ibind at 1. rewrite ioffset_step. destruct (pos <? endp) eqn:E; [|lia].
+    unfold ibind at 1. unfold parse_descriptor_with, ibind at 1.
+    destruct (next_two_run bs pos H0 H2) as (r & -> & -> & -> & _).
+    destruct (byte_of bs (pos + 1) >? 0) eqn:Eg; [lia|]. unfold iret at 1. unfold ibind at 1.
+    rewrite IH by (cbn [length] in Hk; lia). reflexivity.
+  - destruct k; [lia|]. cbn [iloop_fuel]. unfold ibind at 1. rewrite ioffset_step. destruct (pos <? endp) eqn:E; [|lia].
+    unfold ibind at 1. unfold parse_descriptor_with, ibind at 1.
+    destruct (next_two_run bs pos H0 H2) as (r & -> & -> & -> & _).
+    destruct (byte_of bs (pos + 1) >? 0) eqn:Eg; [|lia]. unfold ibind at 1. rewrite ioffset_step.
+    unfold ibind at 1. rewrite Eb. unfold ibind at 1, iseek at 1, iret at 1. cbn [ibs].
+    rewrite (Hp _ _ _ _ _ _ Eb). cbn [ibs]. unfold ibind at 1.
+    rewrite IH by (cbn [length] in Hk; lia). reflexivity.
+Qed.
+
+Theorem parse_descriptors_complete body bs pos ds fin : body_pres body -> 0 <= pos -> pos + 2 <= zlen bs ->
+  tlv_parse desc_hdr body bs (pos + 2 + loop_length_at bs pos) (pos + 2) ds fin ->
+  parse_descriptors_with body (mk_iter bs pos) = Ok (ds, mk_iter bs fin).
+Proof.
+  intros Hp H0 H2 Ht. unfold parse_descriptors_with. unfold ibind at 1.
+  destruct (next_two_run bs pos H0 H2) as (r & -> & Ea & Eb & Hr).
+  rewrite (loop_length_bits r _ _ Hr Ea Eb). fold (loop_length_at bs pos).
+  destruct (loop_length_at bs pos >? 0) eqn:Eg.
+  - unfold ibind at 1. rewrite ioffset_step. unfold iloop, ibind at 1. rewrite ioffset_step.
+    apply (descriptor_loop_complete body bs _ Hp _ _ _ Ht).
+    pose proof (tlv_parse_count _ _ _ _ _ _ Ht) as Hc. unfold zlen in Hc. lia.
+  - inversion Ht; subst; try lia. reflexivity.
+Qed.
+
+(* ---- lifting a body-level round trip to a loop that holds one descriptor ---- *)
+
+
+Lemma app_eq_len {A} (a a' b b' : list A) : length a = length a' -> a ++ b = a' ++ b' -> a = a' /\ b = b'.
+Proof.
+  revert a'. induction a as [|x a IH]; intros [|y a'] Hl H; try discriminate; [auto|].
+  cbn [app] in H. inversion H; subst. destruct (IH a' ltac:(cbn in Hl; lia) H2) as [-> ->]. auto.
+Qed.
+
+Theorem single_descriptor_loop d out rest d' :
+  enc_descriptors_with_length [d] = Ok out -> items_bytes_ok out ->
+  0 <= Descriptor_Tag d < 256 -> 0 < desc_size d < 256 ->
+  (forall pre body rest', zlen pre = 4 -> (exists bi, enc_descriptor_body d = Ok bi /\ items_bytes_ok bi /\ body = bytes_of_items bi) ->
+     exists i1, parse_descriptor_body (Descriptor_Tag d) (desc_size d) (zlen pre + desc_size d) (mk_iter (pre ++ body ++ rest') (zlen pre)) = Ok (d', i1)) ->
+  parse_descriptors (new_iter (bytes_of_items out ++ rest)) =
+    Ok ([d'], mk_iter (bytes_of_items out ++ rest) (4 + desc_size d)) /\
+  zlen (bytes_of_items out) = 4 + desc_size d.
+Proof.
+  intros H Hok Htag Hsz Hbody.
+  destruct (descriptors_with_length_exact [d] out H Hok) as (hdr & bodies & Eb & Hh & HF & Hbits & Hlen).
+  { constructor; [lia|constructor]. } { unfold loop_size. cbn [sumZ fold_right]. lia. }
+  unfold loop_size in Hlen. cbn [sumZ fold_right] in Hlen.
+  inversion HF as [|? body ? bs' [Hb1 Hb2] HF' E1 E2]; subst. inversion HF'; subst. clear HF HF'.
+  cbn [loop_bytes] in Eb. rewrite app_nil_r in Eb. unfold entry_bytes in Eb.
+  (* the body is what the body writer emitted *)
+  assert (Hbi : exists bi, enc_descriptor_body d = Ok bi /\ items_bytes_ok bi /\ body = bytes_of_items bi).
+  { unfold enc_descriptors_with_length in H. cbn [enc_descriptors] in H. unfold enc_descriptor in H.
+    destruct (calc_descriptor_length d =? 0) eqn:Ez; [lia|].
+    destruct (enc_descriptor_body d) as [bi| |] eqn:Ebi; cbn [res_map res_bind] in H; try discriminate.
+    exists bi. split; [reflexivity|].
+    cut (items_bytes_ok bi /\ body = bytes_of_items bi); [tauto|].
+    assert (Eo : out = [WBits 4 255; WBits 12 (calc_descriptors_length [d])] ++ ([wu8 (Descriptor_Tag d); wu8 (calc_descriptor_length d)] ++ bi) ++ [])
+      by (inversion H; reflexivity).
+    rewrite app_nil_r in Eo. subst out.
+    apply items_bytes_ok_app_inv in Hok. destruct Hok as [Ho1 Ho2]. apply items_bytes_ok_app_inv in Ho2. destruct Ho2 as [Ho2 Ho3].
+    rewrite (bytes_of_items_app _ _ 2) in Eb; [|assumption|apply items_bytes_ok_app; assumption|bl; reflexivity].
+    rewrite (bytes_of_items_app _ _ 2) in Eb; [|assumption|assumption|unfold wu8; bl; reflexivity].
+    rewrite bytes_of_two_u8 in Eb.
+    assert (Hl2 : zlen (bytes_of_items [WBits 4 255; WBits 12 (calc_descriptors_length [d])]) = 2)
+      by (apply bytes_of_items_zlen; [assumption|bl; reflexivity]).
+    assert (El : length hdr = length (bytes_of_items [WBits 4 255; WBits 12 (calc_descriptors_length [d])])) by (unfold zlen in *; lia).
+    apply (app_eq_len _ _ _ _ (eq_sym El)) in Eb.
+    destruct Eb as [_ Eb]. cbn [app] in Eb. inversion Eb. split; [assumption|reflexivity]. }
+  remember (bytes_of_items out) as bytes eqn:Ebytes.
+  assert (Hh0 : exists h0 h1, hdr = [h0; h1]).
+  { destruct hdr as [|h0 [|h1 [|h2 hdr]]]; unfold zlen in Hh; cbn [length] in Hh; try lia. eauto. }
+  destruct Hh0 as (h0 & h1 & ->).
+  rewrite (Z.mod_small (Descriptor_Tag d)) in Eb by lia. rewrite (Z.mod_small (calc_descriptor_length d)) in Eb by lia.
+  split; [|lia].
+  (* the TLV walk of the encoded loop has the one entry, whose body parser succeeds by hypothesis *)
+  set (buf := bytes ++ rest).
+  assert (Ebuf : buf = h0 :: h1 :: Descriptor_Tag d :: calc_descriptor_length d :: body ++ rest).
+  { unfold buf. rewrite Eb. reflexivity. }
+  assert (Hll : bitsf [h0; h1] 4 12 = 2 + desc_size d).
+  { rewrite Hlen in Hbits. rewrite Eb in Hbits. cbn [app] in Hbits. rewrite bitsf_prefix2 in Hbits. lia. }
+  assert (Hl0 : loop_length_at buf 0 = 2 + desc_size d).
+  { rewrite <- Hll. symmetry. rewrite Ebuf. apply loop_length_bits; reflexivity. }
+  assert (Hzb : zlen buf = 4 + desc_size d + zlen rest).
+  { rewrite Ebuf. rewrite !zlen_cons, zlen_app. lia. }
+  pose proof (zlen_nonneg rest) as Hrn.
+  unfold parse_descriptors, new_iter. fold buf.
+  apply parse_descriptors_complete; [apply pres_parse_descriptor_body|lia|lia|].
+  rewrite Hl0.
+  assert (Hcd : calc_descriptor_length d = desc_size d) by lia.
+  assert (Ea : 0 + 2 + 2 + desc_size d = 4 + desc_size d) by lia.
+  destruct (Hbody [h0; h1; Descriptor_Tag d; calc_descriptor_length d] body rest eq_refl Hbi) as (i1 & Ei1).
+  assert (Et : byte_of buf (0 + 2) = Descriptor_Tag d) by (rewrite Ebuf; reflexivity).
+  assert (El : byte_of buf (0 + 2 + 1) = desc_size d) by (rewrite Ebuf; change (calc_descriptor_length d = desc_size d); lia).
+  replace (4 + desc_size d) with (0 + 2 + 2 + byte_of buf (0 + 2 + 1)) by lia.
+  eapply tlv_parse_body with (i' := i1); try lia.
+  - rewrite Et, El, Ebuf, Ea, Hcd. cbn [app] in Ei1. rewrite Hcd in Ei1. exact Ei1.
+  - apply tlv_parse_done. lia.
+Qed.
+
+(* body-level round trip: the body parser of d's tag, started on the bytes the body writer emitted for d (at any
+   position of any buffer, with the declared end right behind them), returns d' *)
+Definition body_rt (d d' : Descriptor) : Prop :=
+  forall pre body rest', (exists bi, enc_descriptor_body d = Ok bi /\ items_bytes_ok bi /\ body = bytes_of_items bi) ->
+    exists i1, parse_descriptor_body (Descriptor_Tag d) (desc_size d) (zlen pre + desc_size d)
+                 (mk_iter (pre ++ body ++ rest') (zlen pre)) = Ok (d', i1).
+
+(* ---- per-tag round trips (body level, then lifted through single_descriptor_loop) ---- *)
+
+Definition byte_range (x : Z) : Prop := 0 <= x < 256.
+
+(* stream identifier (EN 300 468 6.2.39) *)
+Lemma brt_stream_identifier d v :
+  Descriptor_Tag d = 82 -> Descriptor_StreamIdentifier d = Some v ->
+  byte_range (DescriptorStreamIdentifier_ComponentTag v) ->
+  body_rt d (set_StreamIdentifier (desc_hdr 82 1) v).
+Proof.
+  intros Ht Hv Hr.
+  assert (Hs : desc_size d = 1) by (unfold desc_size; rewrite Ht, Hv; reflexivity).
+  intros pre body rest' (bi & Ebi & Hbok & ->). rewrite Ht, Hs.
+  assert (bi = enc_stream_identifier v) by (unfold enc_descriptor_body in Ebi; rewrite Ht, Hv in Ebi; inversion Ebi; reflexivity). subst bi.
+  change (parse_descriptor_body 82 1 (zlen pre + 1)) with (v0 <- new_descriptor_stream_identifier ;; iret (set_StreamIdentifier (desc_hdr 82 1) v0)).
+  unfold enc_stream_identifier. rewrite bytes_of_items_cons_u8, bytes_of_items_nil by iok.
+  rewrite Z.mod_small by exact Hr.
+  unfold new_descriptor_stream_identifier, ibind. cbn [app]. rewrite next_byte_step. unfold iret. destruct v. eexists. reflexivity.
+Qed.
+
+Theorem rt_stream_identifier d v out rest :
+  Descriptor_Tag d = 82 -> Descriptor_StreamIdentifier d = Some v ->
+  byte_range (DescriptorStreamIdentifier_ComponentTag v) ->
+  enc_descriptors_with_length [d] = Ok out -> items_bytes_ok out ->
+  parse_descriptors (new_iter (bytes_of_items out ++ rest)) =
+    Ok ([set_StreamIdentifier (desc_hdr 82 1) v], mk_iter (bytes_of_items out ++ rest) 5).
+Proof.
+  intros Ht Hv Hr H Hok.
+  assert (Hbrt : body_rt d (set_StreamIdentifier (desc_hdr 82 1) v)) by (apply (brt_stream_identifier d v); assumption).
+  assert (Hs : desc_size d = 1) by (unfold desc_size; rewrite Ht, Hv; reflexivity).
+  destruct (single_descriptor_loop d out rest (set_StreamIdentifier (desc_hdr 82 1) v) H Hok) as [E _]; [rewrite Ht; lia|lia| |rewrite Hs in E; exact E].
+  intros pre body rest' _ Hex. apply Hbrt. exact Hex.
+Qed.
+
+(* data stream alignment (ISO/IEC 13818-1 2.6.10) *)
+Lemma brt_data_stream_alignment d v :
+  Descriptor_Tag d = 6 -> Descriptor_DataStreamAlignment d = Some v ->
+  byte_range (DescriptorDataStreamAlignment_Type v) ->
+  body_rt d (set_DataStreamAlignment (desc_hdr 6 1) v).
+Proof.
+  intros Ht Hv Hr.
+  assert (Hs : desc_size d = 1) by (unfold desc_size; rewrite Ht, Hv; reflexivity).
+  intros pre body rest' (bi & Ebi & Hbok & ->). rewrite Ht, Hs.
+  assert (bi = enc_data_stream_alignment v) by (unfold enc_descriptor_body in Ebi; rewrite Ht, Hv in Ebi; inversion Ebi; reflexivity). subst bi.
+  change (parse_descriptor_body 6 1 (zlen pre + 1)) with (v0 <- new_descriptor_data_stream_alignment ;; iret (set_DataStreamAlignment (desc_hdr 6 1) v0)).
+  unfold enc_data_stream_alignment. rewrite bytes_of_items_cons_u8, bytes_of_items_nil by iok.
+  rewrite Z.mod_small by exact Hr.
+  unfold new_descriptor_data_stream_alignment, ibind. cbn [app]. rewrite next_byte_step. unfold iret. destruct v. eexists. reflexivity.
+Qed.
+
+Theorem rt_data_stream_alignment d v out rest :
+  Descriptor_Tag d = 6 -> Descriptor_DataStreamAlignment d = Some v ->
+  byte_range (DescriptorDataStreamAlignment_Type v) ->
+  enc_descriptors_with_length [d] = Ok out -> items_bytes_ok out ->
+  parse_descriptors (new_iter (bytes_of_items out ++ rest)) =
+    Ok ([set_DataStreamAlignment (desc_hdr 6 1) v], mk_iter (bytes_of_items out ++ rest) 5).
+Proof.
+  intros Ht Hv Hr H Hok.
+  assert (Hbrt : body_rt d (set_DataStreamAlignment (desc_hdr 6 1) v)) by (apply (brt_data_stream_alignment d v); assumption).
+  assert (Hs : desc_size d = 1) by (unfold desc_size; rewrite Ht, Hv; reflexivity).
+  destruct (single_descriptor_loop d out rest (set_DataStreamAlignment (desc_hdr 6 1) v) H Hok) as [E _]; [rewrite Ht; lia|lia| |rewrite Hs in E; exact E].
+  intros pre body rest' _ Hex. apply Hbrt. exact Hex.
+Qed.
+
+Lemma ok_single_bytes a : items_bytes_ok [WBytes a] -> bytes_ok a.
+Proof. intros H. inversion H; assumption. Qed.
+
+(* user-defined tags 0x80..0xFE: the bytes as they are *)
+Lemma brt_user_defined d :
+  128 <= Descriptor_Tag d <= 254 -> 0 < zlen (Descriptor_UserDefined d) < 256 ->
+  body_rt d (set_UserDefined (desc_hdr (Descriptor_Tag d) (zlen (Descriptor_UserDefined d))) (Descriptor_UserDefined d)).
+Proof.
+  intros Ht Hl.
+  assert (Hu : is_user_defined (Descriptor_Tag d) = true) by (unfold is_user_defined; lia).
+  assert (Hs : desc_size d = zlen (Descriptor_UserDefined d)) by (unfold desc_size; rewrite <- is_user_defined_spec, Hu; reflexivity).
+  intros pre body rest' (bi & Ebi & Hbok & ->). rewrite Hs.
+  assert (bi = [WBytes (Descriptor_UserDefined d)]) by (unfold enc_descriptor_body in Ebi; rewrite Hu in Ebi; inversion Ebi; reflexivity). subst bi.
+  unfold parse_descriptor_body. rewrite Hu.
+  rewrite bytes_of_items_cons_bytes, bytes_of_items_nil, app_nil_r by (try apply ok_single_bytes; iok).
+  unfold ibind. rewrite next_bytes_step by reflexivity. unfold iret. eexists. reflexivity.
+Qed.
+
+Theorem rt_user_defined d out rest :
+  128 <= Descriptor_Tag d <= 254 -> 0 < zlen (Descriptor_UserDefined d) < 256 ->
+  enc_descriptors_with_length [d] = Ok out -> items_bytes_ok out ->
+  parse_descriptors (new_iter (bytes_of_items out ++ rest)) =
+    Ok ([set_UserDefined (desc_hdr (Descriptor_Tag d) (zlen (Descriptor_UserDefined d))) (Descriptor_UserDefined d)],
+        mk_iter (bytes_of_items out ++ rest) (4 + zlen (Descriptor_UserDefined d))).
+Proof.
+  intros Ht Hl H Hok.
+  assert (Hbrt : body_rt d (set_UserDefined (desc_hdr (Descriptor_Tag d) (zlen (Descriptor_UserDefined d))) (Descriptor_UserDefined d))) by (apply (brt_user_defined d); assumption).
+  assert (Hu : is_user_defined (Descriptor_Tag d) = true) by (unfold is_user_defined; lia).
+  assert (Hs : desc_size d = zlen (Descriptor_UserDefined d)) by (unfold desc_size; rewrite <- is_user_defined_spec, Hu; reflexivity).
+  destruct (single_descriptor_loop d out rest
+    (set_UserDefined (desc_hdr (Descriptor_Tag d) (zlen (Descriptor_UserDefined d))) (Descriptor_UserDefined d)) H Hok) as [E _];
+    [lia|lia| |rewrite Hs in E; exact E].
+  intros pre body rest' _ Hex. apply Hbrt. exact Hex.
+Qed.
+
+(* network name (EN 300 468 6.2.27) *)
+Lemma brt_network_name d v :
+  Descriptor_Tag d = 64 -> Descriptor_NetworkName d = Some v -> 0 < zlen (DescriptorNetworkName_Name v) < 256 ->
+  body_rt d (set_NetworkName (desc_hdr 64 (zlen (DescriptorNetworkName_Name v))) v).
+Proof.
+  intros Ht Hv Hl.
+  assert (Hs : desc_size d = zlen (DescriptorNetworkName_Name v)) by (unfold desc_size; rewrite Ht, Hv; reflexivity).
+  intros pre body rest' (bi & Ebi & Hbok & ->). rewrite Ht, Hs.
+  assert (bi = enc_network_name v) by (unfold enc_descriptor_body in Ebi; rewrite Ht, Hv in Ebi; inversion Ebi; reflexivity). subst bi.
+  set (n := zlen (DescriptorNetworkName_Name v)) in *.
+  change (parse_descriptor_body 64 n (zlen pre + n)) with (v0 <- new_descriptor_network_name (zlen pre + n) ;; iret (set_NetworkName (desc_hdr 64 n) v0)).
+  unfold enc_network_name in *. rewrite bytes_of_items_cons_bytes, bytes_of_items_nil, app_nil_r by (try apply ok_single_bytes; iok).
+  unfold new_descriptor_network_name, bytes_to, ibind. rewrite ioffset_step.
+  replace (zlen pre + n - zlen pre) with n by lia. rewrite next_bytes_step by reflexivity. unfold iret. destruct v. eexists. reflexivity.
+Qed.
+
+Theorem rt_network_name d v out rest :
+  Descriptor_Tag d = 64 -> Descriptor_NetworkName d = Some v -> 0 < zlen (DescriptorNetworkName_Name v) < 256 ->
+  enc_descriptors_with_length [d] = Ok out -> items_bytes_ok out ->
+  parse_descriptors (new_iter (bytes_of_items out ++ rest)) =
+    Ok ([set_NetworkName (desc_hdr 64 (zlen (DescriptorNetworkName_Name v))) v],
+        mk_iter (bytes_of_items out ++ rest) (4 + zlen (DescriptorNetworkName_Name v))).
+Proof.
+  intros Ht Hv Hl H Hok.
+  assert (Hbrt : body_rt d (set_NetworkName (desc_hdr 64 (zlen (DescriptorNetworkName_Name v))) v)) by (apply (brt_network_name d v); assumption).
+  assert (Hs : desc_size d = zlen (DescriptorNetworkName_Name v)) by (unfold desc_size; rewrite Ht, Hv; reflexivity).
+  destruct (single_descriptor_loop d out rest (set_NetworkName (desc_hdr 64 (zlen (DescriptorNetworkName_Name v))) v) H Hok) as [E _];
+    [rewrite Ht; lia|lia| |rewrite Hs in E; exact E].
+  intros pre body rest' _ Hex. apply Hbrt. exact Hex.
+Qed.
+
+(* unknown tags: everything below 0x80 (and 0xFF) that is not one of the 23 typed tags *)
+Definition typed_tags : list Z := [106; 40; 80; 84; 6; 122; 78; 127; 10; 88; 14; 64; 85; 15; 95; 5; 72; 77; 82; 89; 86; 69; 70].
+
+Ltac not_typed Hn :=
+  repeat match goal with
+  | |- context [if ?t =? ?n then _ else _] =>
+      let E := fresh "E" in destruct (t =? n) eqn:E;
+      [exfalso; apply Hn; apply Z.eqb_eq in E; rewrite E; unfold typed_tags; cbn [In]; tauto|]
+  | H : context [if ?t =? ?n then _ else _] |- _ =>
+      let E := fresh "E" in destruct (t =? n) eqn:E;
+      [exfalso; apply Hn; apply Z.eqb_eq in E; rewrite E; unfold typed_tags; cbn [In]; tauto|]
+  end.
+
+Lemma brt_unknown d v :
+  0 <= Descriptor_Tag d < 256 -> is_user_defined (Descriptor_Tag d) = false -> ~ In (Descriptor_Tag d) typed_tags ->
+  Descriptor_Unknown d = Some v -> DescriptorUnknown_Tag v = Descriptor_Tag d -> 0 < zlen (DescriptorUnknown_Content v) < 256 ->
+  body_rt d (set_Unknown (desc_hdr (Descriptor_Tag d) (zlen (DescriptorUnknown_Content v))) v).
+Proof.
+  intros Hr Hu Hn Hv Htag Hl.
+  assert (Hs : desc_size d = zlen (DescriptorUnknown_Content v)).
+  { unfold desc_size. rewrite <- is_user_defined_spec, Hu. not_typed Hn. rewrite Hv. reflexivity. }
+  intros pre body rest' (bi & Ebi & Hbok & ->). rewrite Hs.
+  assert (bi = enc_unknown v).
+  { unfold enc_descriptor_body in Ebi. rewrite Hu in Ebi. unfold_tags. not_typed Hn. rewrite Hv in Ebi. inversion Ebi; reflexivity. }
+  subst bi. set (n := zlen (DescriptorUnknown_Content v)) in *.
+  unfold parse_descriptor_body. rewrite Hu. unfold_tags. not_typed Hn.
+  unfold enc_unknown in *. rewrite bytes_of_items_cons_bytes, bytes_of_items_nil, app_nil_r by (try apply ok_single_bytes; iok).
+  unfold new_descriptor_unknown, ibind. rewrite next_bytes_step by reflexivity. unfold iret.
+  destruct v as [c t]. cbn [DescriptorUnknown_Tag DescriptorUnknown_Content] in *. subst t. eexists. reflexivity.
+Qed.
+
+Theorem rt_unknown d v out rest :
+  0 <= Descriptor_Tag d < 256 -> is_user_defined (Descriptor_Tag d) = false -> ~ In (Descriptor_Tag d) typed_tags ->
+  Descriptor_Unknown d = Some v -> DescriptorUnknown_Tag v = Descriptor_Tag d -> 0 < zlen (DescriptorUnknown_Content v) < 256 ->
+  enc_descriptors_with_length [d] = Ok out -> items_bytes_ok out ->
+  parse_descriptors (new_iter (bytes_of_items out ++ rest)) =
+    Ok ([set_Unknown (desc_hdr (Descriptor_Tag d) (zlen (DescriptorUnknown_Content v))) v],
+        mk_iter (bytes_of_items out ++ rest) (4 + zlen (DescriptorUnknown_Content v))).
+Proof.
+  intros Hr Hu Hn Hv Htag Hl H Hok.
+  assert (Hbrt : body_rt d (set_Unknown (desc_hdr (Descriptor_Tag d) (zlen (DescriptorUnknown_Content v))) v)) by (apply (brt_unknown d v); assumption).
+  assert (Hs : desc_size d = zlen (DescriptorUnknown_Content v)).
+  { unfold desc_size. rewrite <- is_user_defined_spec, Hu. not_typed Hn. rewrite Hv. reflexivity. }
+  destruct (single_descriptor_loop d out rest (set_Unknown (desc_hdr (Descriptor_Tag d) (zlen (DescriptorUnknown_Content v))) v) H Hok) as [E _];
+    [lia|lia| |rewrite Hs in E; exact E].
+  intros pre body rest' _ Hex. apply Hbrt. exact Hex.
+Qed.
+
+(* 32-bit word read back *)
+Lemma u32_group x : 0 <= x < 2 ^ 32 ->
+  zlen (bytes_of_items [wu32 x]) = 4 /\ bitsf (bytes_of_items [wu32 x]) 0 32 = x.
+Proof.
+  intros Hx. destruct (bytes_of_group [wu32 x] 4) as [Hl Hb]; [iok|unfold wu32; bl; reflexivity|].
+  split; [exact Hl|]. unfold bitsf. rewrite Hb. unfold wu32, items_bits. cbn [flat_map item_bits].
+  apply field_here. exact Hx.
+Qed.
+
+(* private data indicator (ISO/IEC 13818-1 2.6.28) *)
+Lemma brt_private_data_indicator d v :
+  Descriptor_Tag d = 15 -> Descriptor_PrivateDataIndicator d = Some v ->
+  0 <= DescriptorPrivateDataIndicator_Indicator v < 2 ^ 32 ->
+  body_rt d (set_PrivateDataIndicator (desc_hdr 15 4) v).
+Proof.
+  intros Ht Hv Hr.
+  assert (Hs : desc_size d = 4) by (unfold desc_size; rewrite Ht, Hv; reflexivity).
+  intros pre body rest' (bi & Ebi & Hbok & ->). rewrite Ht, Hs.
+  assert (bi = enc_private_data_indicator v) by (unfold enc_descriptor_body in Ebi; rewrite Ht, Hv in Ebi; inversion Ebi; reflexivity). subst bi.
+  change (parse_descriptor_body 15 4 (zlen pre + 4)) with (v0 <- new_descriptor_private_data_indicator ;; iret (set_PrivateDataIndicator (desc_hdr 15 4) v0)).
+  unfold enc_private_data_indicator. destruct (u32_group _ Hr) as [Hl Hb].
+  unfold new_descriptor_private_data_indicator, ibind. rewrite next_bytes_nocopy_step by exact Hl.
+  unfold iret. rewrite Hb. destruct v. eexists. reflexivity.
+Qed.
+
+Theorem rt_private_data_indicator d v out rest :
+  Descriptor_Tag d = 15 -> Descriptor_PrivateDataIndicator d = Some v ->
+  0 <= DescriptorPrivateDataIndicator_Indicator v < 2 ^ 32 ->
+  enc_descriptors_with_length [d] = Ok out -> items_bytes_ok out ->
+  parse_descriptors (new_iter (bytes_of_items out ++ rest)) =
+    Ok ([set_PrivateDataIndicator (desc_hdr 15 4) v], mk_iter (bytes_of_items out ++ rest) 8).
+Proof.
+  intros Ht Hv Hr H Hok.
+  assert (Hbrt : body_rt d (set_PrivateDataIndicator (desc_hdr 15 4) v)) by (apply (brt_private_data_indicator d v); assumption).
+  assert (Hs : desc_size d = 4) by (unfold desc_size; rewrite Ht, Hv; reflexivity).
+  destruct (single_descriptor_loop d out rest (set_PrivateDataIndicator (desc_hdr 15 4) v) H Hok) as [E _]; [rewrite Ht; lia|lia| |rewrite Hs in E; exact E].
+  intros pre body rest' _ Hex. apply Hbrt. exact Hex.
+Qed.
+
+(* private data specifier (EN 300 468 6.2.31) *)
+Lemma brt_private_data_specifier d v :
+  Descriptor_Tag d = 95 -> Descriptor_PrivateDataSpecifier d = Some v ->
+  0 <= DescriptorPrivateDataSpecifier_Specifier v < 2 ^ 32 ->
+  body_rt d (set_PrivateDataSpecifier (desc_hdr 95 4) v).
+Proof.
+  intros Ht Hv Hr.
+  assert (Hs : desc_size d = 4) by (unfold desc_size; rewrite Ht, Hv; reflexivity).
+  intros pre body rest' (bi & Ebi & Hbok & ->). rewrite Ht, Hs.
+  assert (bi = enc_private_data_specifier v) by (unfold enc_descriptor_body in Ebi; rewrite Ht, Hv in Ebi; inversion Ebi; reflexivity). subst bi.
+  change (parse_descriptor_body 95 4 (zlen pre + 4)) with (v0 <- new_descriptor_private_data_specifier ;; iret (set_PrivateDataSpecifier (desc_hdr 95 4) v0)).
+  unfold enc_private_data_specifier. destruct (u32_group _ Hr) as [Hl Hb].
+  unfold new_descriptor_private_data_specifier, ibind. rewrite next_bytes_nocopy_step by exact Hl.
+  unfold iret. rewrite Hb. destruct v. eexists. reflexivity.
+Qed.
+
+Theorem rt_private_data_specifier d v out rest :
+  Descriptor_Tag d = 95 -> Descriptor_PrivateDataSpecifier d = Some v ->
+  0 <= DescriptorPrivateDataSpecifier_Specifier v < 2 ^ 32 ->
+  enc_descriptors_with_length [d] = Ok out -> items_bytes_ok out ->
+  parse_descriptors (new_iter (bytes_of_items out ++ rest)) =
+    Ok ([set_PrivateDataSpecifier (desc_hdr 95 4) v], mk_iter (bytes_of_items out ++ rest) 8).
+Proof.
+  intros Ht Hv Hr H Hok.
+  assert (Hbrt : body_rt d (set_PrivateDataSpecifier (desc_hdr 95 4) v)) by (apply (brt_private_data_specifier d v); assumption).
+  assert (Hs : desc_size d = 4) by (unfold desc_size; rewrite Ht, Hv; reflexivity).
+  destruct (single_descriptor_loop d out rest (set_PrivateDataSpecifier (desc_hdr 95 4) v) H Hok) as [E _]; [rewrite Ht; lia|lia| |rewrite Hs in E; exact E].
+  intros pre body rest' _ Hex. apply Hbrt. exact Hex.
+Qed.
+
+(* maximum bitrate (ISO/IEC 13818-1 2.6.26): 2 reserved bits, 22 bits in units of 50 bytes/second *)
+Lemma brt_maximum_bitrate d v k :
+  Descriptor_Tag d = 14 -> Descriptor_MaximumBitrate d = Some v ->
+  DescriptorMaximumBitrate_Bitrate v = k * 50 -> 0 <= k < 2 ^ 22 ->
+  body_rt d (set_MaximumBitrate (desc_hdr 14 3) v).
+Proof.
+  intros Ht Hv Hk Hr.
+  assert (Hs : desc_size d = 3) by (unfold desc_size; rewrite Ht, Hv; reflexivity).
+  intros pre body rest' (bi & Ebi & Hbok & ->). rewrite Ht, Hs.
+  assert (bi = enc_maximum_bitrate v) by (unfold enc_descriptor_body in Ebi; rewrite Ht, Hv in Ebi; inversion Ebi; reflexivity). subst bi.
+  change (parse_descriptor_body 14 3 (zlen pre + 3)) with (v0 <- new_descriptor_maximum_bitrate ;; iret (set_MaximumBitrate (desc_hdr 14 3) v0)).
+  destruct (bytes_of_group (enc_maximum_bitrate v) 3) as [Hl Hb]; [exact Hbok|unfold enc_maximum_bitrate; bl; reflexivity|].
+  unfold new_descriptor_maximum_bitrate, ibind. rewrite next_bytes_nocopy_step by exact Hl.
+  unfold iret, bitsf. rewrite Hb. unfold enc_maximum_bitrate, items_bits. cbn [flat_map item_bits]. rewrite app_nil_r.
+  rewrite (field_skip 2) by lia. change (2 - 2)%nat with 0%nat. rewrite Hk, Z.div_mul by lia.
+  rewrite <- (app_nil_r (bits_of 22 k)), field_here by exact Hr.
+  destruct v as [b]. cbn [DescriptorMaximumBitrate_Bitrate] in Hk. subst b. eexists. reflexivity.
+Qed.
+
+Theorem rt_maximum_bitrate d v k out rest :
+  Descriptor_Tag d = 14 -> Descriptor_MaximumBitrate d = Some v ->
+  DescriptorMaximumBitrate_Bitrate v = k * 50 -> 0 <= k < 2 ^ 22 ->
+  enc_descriptors_with_length [d] = Ok out -> items_bytes_ok out ->
+  parse_descriptors (new_iter (bytes_of_items out ++ rest)) =
+    Ok ([set_MaximumBitrate (desc_hdr 14 3) v], mk_iter (bytes_of_items out ++ rest) 7).
+Proof.
+  intros Ht Hv Hk Hr H Hok.
+  assert (Hbrt : body_rt d (set_MaximumBitrate (desc_hdr 14 3) v)) by (apply (brt_maximum_bitrate d v k); assumption).
+  assert (Hs : desc_size d = 3) by (unfold desc_size; rewrite Ht, Hv; reflexivity).
+  destruct (single_descriptor_loop d out rest (set_MaximumBitrate (desc_hdr 14 3) v) H Hok) as [E _]; [rewrite Ht; lia|lia| |rewrite Hs in E; exact E].
+  intros pre body rest' _ Hex. apply Hbrt. exact Hex.
+Qed.
+
+Lemma bytes_of_single_bytes a : bytes_ok a -> bytes_of_items [WBytes a] = a.
+Proof. intros H. rewrite bytes_of_items_cons_bytes, bytes_of_items_nil, app_nil_r by (auto; iok). reflexivity. Qed.
+
+Lemma items_ok_tail it l : items_bytes_ok (it :: l) -> items_bytes_ok l.
+Proof. intros H. inversion H; assumption. Qed.
+Lemma items_ok_head_bytes a l : items_bytes_ok (WBytes a :: l) -> bytes_ok a.
+Proof. intros H. inversion H; assumption. Qed.
+
+(* registration (ISO/IEC 13818-1 2.6.8) *)
+Lemma brt_registration d v :
+  Descriptor_Tag d = 5 -> Descriptor_Registration d = Some v ->
+  0 <= DescriptorRegistration_FormatIdentifier v < 2 ^ 32 ->
+  zlen (DescriptorRegistration_AdditionalIdentificationInfo v) < 252 ->
+  body_rt d (set_Registration (desc_hdr 5 (4 + zlen (DescriptorRegistration_AdditionalIdentificationInfo v))) v).
+Proof.
+  intros Ht Hv Hr Hl. set (ai := DescriptorRegistration_AdditionalIdentificationInfo v) in *.
+  pose proof (zlen_nonneg ai) as Hnn.
+  assert (Hs : desc_size d = 4 + zlen ai) by (unfold desc_size; rewrite Ht, Hv; reflexivity).
+  intros pre body rest' (bi & Ebi & Hbok & ->). rewrite Ht, Hs.
+  assert (bi = enc_registration v) by (unfold enc_descriptor_body in Ebi; rewrite Ht, Hv in Ebi; inversion Ebi; reflexivity). subst bi.
+  change (parse_descriptor_body 5 (4 + zlen ai) (zlen pre + (4 + zlen ai))) with
+    (v0 <- new_descriptor_registration (zlen pre + (4 + zlen ai)) ;; iret (set_Registration (desc_hdr 5 (4 + zlen ai)) v0)).
+  unfold enc_registration in *. fold ai in Hbok |- *.
+  assert (Hai : bytes_ok ai) by (apply items_ok_tail in Hbok; apply items_ok_head_bytes in Hbok; exact Hbok).
+  destruct (u32_group _ Hr) as [Hl4 Hb4].
+  change [wu32 (DescriptorRegistration_FormatIdentifier v); WBytes ai] with ([wu32 (DescriptorRegistration_FormatIdentifier v)] ++ [WBytes ai]).
+  rewrite (bytes_of_items_app _ _ 4) by (try (unfold wu32; bl; reflexivity); iok). rewrite bytes_of_single_bytes by exact Hai.
+  set (g := bytes_of_items [wu32 (DescriptorRegistration_FormatIdentifier v)]) in *.
+  rewrite <- app_assoc. unfold new_descriptor_registration, ibind. rewrite next_bytes_nocopy_step by exact Hl4.
+  unfold rest_bytes, ibind. rewrite ioffset_step.
+  assert (Ez : zlen (pre ++ g) = zlen pre + 4) by (rewrite zlen_app; lia).
+  destruct (zlen (pre ++ g) <? zlen pre + (4 + zlen ai)) eqn:Ec.
+  - replace (zlen pre + (4 + zlen ai) - zlen (pre ++ g)) with (zlen ai) by lia.
+    rewrite next_bytes_step by reflexivity.
+    unfold iret. rewrite Hb4. destruct v. eexists. reflexivity.
+  - assert (Hz : zlen ai = 0) by lia.
+    assert (Eai : ai = []) by (apply length_zero_iff_nil; unfold zlen in Hz; lia).
+    unfold iret. rewrite Hb4. destruct v as [a f]. unfold ai in Eai. cbn [DescriptorRegistration_AdditionalIdentificationInfo] in Eai.
+    rewrite Eai. eexists. reflexivity.
+Qed.
+
+Theorem rt_registration d v out rest :
+  Descriptor_Tag d = 5 -> Descriptor_Registration d = Some v ->
+  0 <= DescriptorRegistration_FormatIdentifier v < 2 ^ 32 ->
+  zlen (DescriptorRegistration_AdditionalIdentificationInfo v) < 252 ->
+  enc_descriptors_with_length [d] = Ok out -> items_bytes_ok out ->
+  parse_descriptors (new_iter (bytes_of_items out ++ rest)) =
+    Ok ([set_Registration (desc_hdr 5 (4 + zlen (DescriptorRegistration_AdditionalIdentificationInfo v))) v],
+        mk_iter (bytes_of_items out ++ rest) (8 + zlen (DescriptorRegistration_AdditionalIdentificationInfo v))).
+Proof.
+  intros Ht Hv Hr Hl H Hok.
+  assert (Hbrt : body_rt d (set_Registration (desc_hdr 5 (4 + zlen (DescriptorRegistration_AdditionalIdentificationInfo v))) v)) by (apply (brt_registration d v); assumption).
+  set (ai := DescriptorRegistration_AdditionalIdentificationInfo v) in *.
+  pose proof (zlen_nonneg ai) as Hnn.
+  assert (Hs : desc_size d = 4 + zlen ai) by (unfold desc_size; rewrite Ht, Hv; reflexivity).
+  destruct (single_descriptor_loop d out rest (set_Registration (desc_hdr 5 (4 + zlen ai)) v) H Hok) as [E _];
+    [rewrite Ht; lia|lia| |rewrite Hs in E; replace (8 + zlen ai) with (4 + (4 + zlen ai)) by lia; exact E].
+  intros pre body rest' _ Hex. apply Hbrt. exact Hex.
+Qed.
+
+(* ISO 639 language and audio type (ISO/IEC 13818-1 2.6.18, one entry): 3-byte language code *)
+Lemma brt_iso639 d v :
+  Descriptor_Tag d = 10 -> Descriptor_ISO639LanguageAndAudioType d = Some v ->
+  length (DescriptorISO639LanguageAndAudioType_Language v) = 3%nat ->
+  byte_range (DescriptorISO639LanguageAndAudioType_Type v) ->
+  body_rt d (set_ISO639LanguageAndAudioType (desc_hdr 10 4) v).
+Proof.
+  intros Ht Hv Hl3 Hr.
+  assert (Hs : desc_size d = 4) by (unfold desc_size; rewrite Ht, Hv; reflexivity).
+  intros pre body rest' (bi & Ebi & Hbok & ->). rewrite Ht, Hs.
+  assert (bi = enc_iso639 v) by (unfold enc_descriptor_body in Ebi; rewrite Ht, Hv in Ebi; inversion Ebi; reflexivity). subst bi.
+  change (parse_descriptor_body 10 4 (zlen pre + 4)) with
+    (v0 <- new_descriptor_iso639 (zlen pre + 4) ;; iret (set_ISO639LanguageAndAudioType (desc_hdr 10 4) v0)).
+  destruct v as [lang ty]. cbn [DescriptorISO639LanguageAndAudioType_Language DescriptorISO639LanguageAndAudioType_Type] in *.
+  unfold enc_iso639, wbytesn in *. cbn [DescriptorISO639LanguageAndAudioType_Language DescriptorISO639LanguageAndAudioType_Type] in *.
+  rewrite Hl3 in *. cbn [Nat.eqb Nat.leb] in *. rewrite <- Hl3, firstn_all in *. cbn [app] in *.
+  assert (Hlang : bytes_ok lang) by (apply items_ok_head_bytes in Hbok; exact Hbok).
+  rewrite bytes_of_items_cons_bytes, bytes_of_items_cons_u8, bytes_of_items_nil by iok. rewrite Z.mod_small by exact Hr.
+  unfold new_descriptor_iso639, bytes_to, ibind. rewrite ioffset_step. replace (zlen pre + 4 - zlen pre) with 4 by lia.
+  rewrite next_bytes_step by (rewrite zlen_app; unfold zlen; rewrite Hl3; reflexivity).
+  destruct (lang ++ [ty]) as [|x l] eqn:El; [destruct lang; discriminate|]. rewrite <- El.
+  unfold iret. rewrite removelast_last, last_last. eexists. reflexivity.
+Qed.
+
+Theorem rt_iso639 d v out rest :
+  Descriptor_Tag d = 10 -> Descriptor_ISO639LanguageAndAudioType d = Some v ->
+  length (DescriptorISO639LanguageAndAudioType_Language v) = 3%nat ->
+  byte_range (DescriptorISO639LanguageAndAudioType_Type v) ->
+  enc_descriptors_with_length [d] = Ok out -> items_bytes_ok out ->
+  parse_descriptors (new_iter (bytes_of_items out ++ rest)) =
+    Ok ([set_ISO639LanguageAndAudioType (desc_hdr 10 4) v], mk_iter (bytes_of_items out ++ rest) 8).
+Proof.
+  intros Ht Hv Hl3 Hr H Hok.
+  assert (Hbrt : body_rt d (set_ISO639LanguageAndAudioType (desc_hdr 10 4) v)) by (apply (brt_iso639 d v); assumption).
+  assert (Hs : desc_size d = 4) by (unfold desc_size; rewrite Ht, Hv; reflexivity).
+  destruct (single_descriptor_loop d out rest (set_ISO639LanguageAndAudioType (desc_hdr 10 4) v) H Hok) as [E _]; [rewrite Ht; lia|lia| |rewrite Hs in E; exact E].
+  intros pre body rest' _ Hex. apply Hbrt. exact Hex.
+Qed.
+
+(* service (EN 300 468 6.2.33) *)
+Lemma brt_service d v :
+  Descriptor_Tag d = 72 -> Descriptor_Service d = Some v -> byte_range (DescriptorService_Type v) ->
+  3 + zlen (DescriptorService_Provider v) + zlen (DescriptorService_Name v) < 256 ->
+  body_rt d (set_Service (desc_hdr 72 (3 + zlen (DescriptorService_Provider v) + zlen (DescriptorService_Name v))) v).
+Proof.
+  intros Ht Hv Hr Hl. destruct v as [name prov ty]. cbn [DescriptorService_Name DescriptorService_Provider DescriptorService_Type] in *.
+  pose proof (zlen_nonneg name). pose proof (zlen_nonneg prov).
+  assert (Hs : desc_size d = 3 + zlen prov + zlen name) by (unfold desc_size; rewrite Ht, Hv; reflexivity).
+  intros pre body rest' (bi & Ebi & Hbok & ->). rewrite Ht, Hs.
+  assert (bi = enc_service {| DescriptorService_Name := name; DescriptorService_Provider := prov; DescriptorService_Type := ty |})
+    by (unfold enc_descriptor_body in Ebi; rewrite Ht, Hv in Ebi; inversion Ebi; reflexivity). subst bi.
+  set (n := 3 + zlen prov + zlen name).
+  change (parse_descriptor_body 72 n (zlen pre + n)) with (v0 <- new_descriptor_service ;; iret (set_Service (desc_hdr 72 n) v0)).
+  unfold enc_service in *. cbn [DescriptorService_Name DescriptorService_Provider DescriptorService_Type] in *.
+  assert (Hp : bytes_ok prov) by (do 2 apply items_ok_tail in Hbok; apply items_ok_head_bytes in Hbok; exact Hbok).
+  assert (Hn : bytes_ok name) by (do 4 apply items_ok_tail in Hbok; apply items_ok_head_bytes in Hbok; exact Hbok).
+  rewrite !bytes_of_items_cons_u8, bytes_of_items_cons_bytes, !bytes_of_items_cons_u8, bytes_of_items_cons_bytes, bytes_of_items_nil, app_nil_r by iok.
+  unfold blen. fold (zlen prov) (zlen name). rewrite !Z.mod_small by (unfold byte_range in *; lia).
+  replace ((ty :: zlen prov :: prov ++ zlen name :: name) ++ rest') with (ty :: zlen prov :: prov ++ zlen name :: name ++ rest')
+    by (cbn [app]; rewrite <- app_assoc; reflexivity).
+  unfold new_descriptor_service, ibind. rewrite next_byte_step. rewrite next_byte_step.
+  rewrite next_bytes_step by reflexivity. rewrite next_byte_step. rewrite next_bytes_step by reflexivity.
+  unfold iret. eexists. reflexivity.
+Qed.
+
+Theorem rt_service d v out rest :
+  Descriptor_Tag d = 72 -> Descriptor_Service d = Some v -> byte_range (DescriptorService_Type v) ->
+  3 + zlen (DescriptorService_Provider v) + zlen (DescriptorService_Name v) < 256 ->
+  enc_descriptors_with_length [d] = Ok out -> items_bytes_ok out ->
+  parse_descriptors (new_iter (bytes_of_items out ++ rest)) =
+    Ok ([set_Service (desc_hdr 72 (3 + zlen (DescriptorService_Provider v) + zlen (DescriptorService_Name v))) v],
+        mk_iter (bytes_of_items out ++ rest) (4 + (3 + zlen (DescriptorService_Provider v) + zlen (DescriptorService_Name v)))).
+Proof.
+  intros Ht Hv Hr Hl H Hok.
+  assert (Hbrt : body_rt d (set_Service (desc_hdr 72 (3 + zlen (DescriptorService_Provider v) + zlen (DescriptorService_Name v))) v)) by (apply (brt_service d v); assumption).
+  destruct v as [name prov ty]. cbn [DescriptorService_Name DescriptorService_Provider DescriptorService_Type] in *.
+  pose proof (zlen_nonneg name). pose proof (zlen_nonneg prov).
+  assert (Hs : desc_size d = 3 + zlen prov + zlen name) by (unfold desc_size; rewrite Ht, Hv; reflexivity).
+  destruct (single_descriptor_loop d out rest
+     (set_Service (desc_hdr 72 (3 + zlen prov + zlen name)) {| DescriptorService_Name := name; DescriptorService_Provider := prov; DescriptorService_Type := ty |}) H Hok) as [E _];
+    [rewrite Ht; lia|lia| |rewrite Hs in E; exact E].
+  intros pre body rest' _ Hex. apply Hbrt. exact Hex.
+Qed.
+
+Lemma one_byte_group g : items_bytes_ok g -> bitlen g = 8 ->
+  exists b, bytes_of_items g = [b] /\ bits_of_bytes [b] = items_bits g.
+Proof.
+  intros Hok Hb. destruct (bytes_of_group g 1 Hok) as [Hl Hbits]; [lia|].
+  destruct (bytes_of_items g) as [|b [|c l]] eqn:E; unfold zlen in Hl; cbn [length] in Hl; try lia.
+  exists b. split; [reflexivity|exact Hbits].
+Qed.
+
+(* AVC video (ISO/IEC 13818-1 2.6.64) *)
+Lemma brt_avc_video d v :
+  Descriptor_Tag d = 40 -> Descriptor_AVCVideo d = Some v ->
+  byte_range (DescriptorAVCVideo_ProfileIDC v) -> byte_range (DescriptorAVCVideo_LevelIDC v) ->
+  0 <= DescriptorAVCVideo_CompatibleFlags v < 32 ->
+  body_rt d (set_AVCVideo (desc_hdr 40 4) v).
+Proof.
+  intros Ht Hv Hp Hlv Hcf.
+  assert (Hs : desc_size d = 4) by (unfold desc_size; rewrite Ht, Hv; reflexivity).
+  intros pre body rest' (bi & Ebi & Hbok & ->). rewrite Ht, Hs.
+  assert (bi = enc_avc_video v) by (unfold enc_descriptor_body in Ebi; rewrite Ht, Hv in Ebi; inversion Ebi; reflexivity). subst bi.
+  change (parse_descriptor_body 40 4 (zlen pre + 4)) with (v0 <- new_descriptor_avc_video ;; iret (set_AVCVideo (desc_hdr 40 4) v0)).
+  destruct v as [h24 still cf c0 c1 c2 lv pr].
+  cbn [DescriptorAVCVideo_ProfileIDC DescriptorAVCVideo_LevelIDC DescriptorAVCVideo_CompatibleFlags] in *.
+  unfold enc_avc_video. cbn [DescriptorAVCVideo_AVC24HourPictureFlag DescriptorAVCVideo_AVCStillPresent DescriptorAVCVideo_CompatibleFlags
+    DescriptorAVCVideo_ConstraintSet0Flag DescriptorAVCVideo_ConstraintSet1Flag DescriptorAVCVideo_ConstraintSet2Flag
+    DescriptorAVCVideo_LevelIDC DescriptorAVCVideo_ProfileIDC].
+  set (g1 := [WBool c0; WBool c1; WBool c2; WBits 5 cf]). set (g3 := [WBool still; WBool h24; WBits 6 255]).
+  change [wu8 pr; WBool c0; WBool c1; WBool c2; WBits 5 cf; wu8 lv; WBool still; WBool h24; WBits 6 255] with (wu8 pr :: (g1 ++ wu8 lv :: g3)).
+  destruct (one_byte_group g1) as (b1 & Eb1 & Hb1); [unfold g1; iok|unfold g1; bl; reflexivity|].
+  destruct (one_byte_group g3) as (b3 & Eb3 & Hb3); [unfold g3; iok|unfold g3; bl; reflexivity|].
+  rewrite bytes_of_items_cons_u8 by (unfold g1, g3; iok).
+  change (WBool c0 :: WBool c1 :: WBool c2 :: WBits 5 cf :: wu8 lv :: g3) with (g1 ++ wu8 lv :: g3).
+  rewrite (bytes_of_items_app g1 _ 1) by (try (unfold g1; bl; reflexivity); unfold g1, g3; iok).
+  rewrite bytes_of_items_cons_u8 by (unfold g3; iok). rewrite Eb1, Eb3. rewrite !Z.mod_small by assumption. cbn [app].
+  unfold new_descriptor_avc_video, ibind. rewrite next_byte_step. rewrite next_byte_step. rewrite next_byte_step. rewrite next_byte_step.
+  unfold iret, bitb, bitsf. rewrite Hb1, Hb3. unfold g1, g3, items_bits. cbn [flat_map item_bits app].
+  rewrite !field_bit_skip, !field_bit_here, !b2z_eqb, field_here by exact Hcf.
+  eexists. reflexivity.
+Qed.
+
+Theorem rt_avc_video d v out rest :
+  Descriptor_Tag d = 40 -> Descriptor_AVCVideo d = Some v ->
+  byte_range (DescriptorAVCVideo_ProfileIDC v) -> byte_range (DescriptorAVCVideo_LevelIDC v) ->
+  0 <= DescriptorAVCVideo_CompatibleFlags v < 32 ->
+  enc_descriptors_with_length [d] = Ok out -> items_bytes_ok out ->
+  parse_descriptors (new_iter (bytes_of_items out ++ rest)) =
+    Ok ([set_AVCVideo (desc_hdr 40 4) v], mk_iter (bytes_of_items out ++ rest) 8).
+Proof.
+  intros Ht Hv Hp Hlv Hcf H Hok.
+  assert (Hbrt : body_rt d (set_AVCVideo (desc_hdr 40 4) v)) by (apply (brt_avc_video d v); assumption).
+  assert (Hs : desc_size d = 4) by (unfold desc_size; rewrite Ht, Hv; reflexivity).
+  destruct (single_descriptor_loop d out rest (set_AVCVideo (desc_hdr 40 4) v) H Hok) as [E _]; [rewrite Ht; lia|lia| |rewrite Hs in E; exact E].
+  intros pre body rest' _ Hex. apply Hbrt. exact Hex.
+Qed.
+
+(* ================= part D: the writers emit the reference layouts ================= *)
+
+Lemma bytes_of_bits_word n x : bytes_of_bits (bits_of (8 + n) x) = ((x / 2 ^ Z.of_nat n) mod 256) :: bytes_of_bits (bits_of n x).
+Proof. rewrite bits_of_split, bytes_of_bits_8 by apply bits_of_length. rewrite Z_of_bits_of_mod. reflexivity. Qed.
+
+Lemma bytes_of_u16 x : bytes_of_items [wu16 x] = be16_bytes x.
+Proof.
+  rewrite chunks_concat by iok. unfold wu16, items_bits. cbn [flat_map item_bits]. rewrite app_nil_r.
+  change 16%nat with (8 + 8)%nat. rewrite bytes_of_bits_word, bytes_of_bits_bits_of_8. reflexivity.
+Qed.
+
+Lemma bytes_of_u32 x : bytes_of_items [wu32 x] = be32_bytes x.
+Proof.
+  rewrite chunks_concat by iok. unfold wu32, items_bits. cbn [flat_map item_bits]. rewrite app_nil_r.
+  change 32%nat with (8 + 24)%nat. rewrite bytes_of_bits_word. change 24%nat with (8 + 16)%nat. rewrite bytes_of_bits_word.
+  change 16%nat with (8 + 8)%nat. rewrite bytes_of_bits_word, bytes_of_bits_bits_of_8. reflexivity.
+Qed.
+
+Lemma bytes_of_items_cons_u16 x l : items_bytes_ok l -> bytes_of_items (wu16 x :: l) = be16_bytes x ++ bytes_of_items l.
+Proof.
+  intros Hl. change (wu16 x :: l) with ([wu16 x] ++ l). rewrite (bytes_of_items_app _ _ 2) by (try (unfold wu16; bl; reflexivity); iok).
+  rewrite bytes_of_u16. reflexivity.
+Qed.
+Lemma bytes_of_items_cons_u32 x l : items_bytes_ok l -> bytes_of_items (wu32 x :: l) = be32_bytes x ++ bytes_of_items l.
+Proof.
+  intros Hl. change (wu32 x :: l) with ([wu32 x] ++ l). rewrite (bytes_of_items_app _ _ 4) by (try (unfold wu32; bl; reflexivity); iok).
+  rewrite bytes_of_u32. reflexivity.
+Qed.
+
+(* two nibbles make a byte *)
+Lemma bytes_of_items_cons_nibbles a b l : items_bytes_ok l -> 0 <= a < 16 -> 0 <= b < 16 ->
+  bytes_of_items (WBits 4 a :: WBits 4 b :: l) = (a * 16 + b) :: bytes_of_items l.
+Proof.
+  intros Hl Ha Hb. change (WBits 4 a :: WBits 4 b :: l) with ([WBits 4 a; WBits 4 b] ++ l).
+  rewrite (bytes_of_items_app _ _ 1) by (try (bl; reflexivity); iok). f_equal.
+  rewrite chunks_concat by iok. unfold items_bits. cbn [flat_map item_bits]. rewrite app_nil_r.
+  rewrite <- (app_nil_r (bits_of 4 a ++ bits_of 4 b)), bytes_of_bits_8 by (rewrite app_length, !bits_of_length; reflexivity).
+  rewrite Z_of_bits_app, bits_of_length, !Z_of_bits_of by (cbn; lia). reflexivity.
+Qed.
+
+(* a 3-byte code goes out as it is *)
+Lemma wbytesn_3 bs : length bs = 3%nat -> wbytesn bs 3 0 = [WBytes bs].
+Proof. intros H. unfold wbytesn. rewrite H. cbn [Nat.eqb Nat.leb]. rewrite <- H, firstn_all. reflexivity. Qed.
+
+Lemma write_stream_identifier v : byte_range (DescriptorStreamIdentifier_ComponentTag v) ->
+  bytes_of_items (enc_stream_identifier v) = ref_stream_identifier v.
+Proof. intros H. unfold enc_stream_identifier, ref_stream_identifier. rewrite bytes_of_items_cons_u8, Z.mod_small by (auto; iok). reflexivity. Qed.
+
+Lemma write_data_stream_alignment v : byte_range (DescriptorDataStreamAlignment_Type v) ->
+  bytes_of_items (enc_data_stream_alignment v) = ref_data_stream_alignment v.
+Proof. intros H. unfold enc_data_stream_alignment, ref_data_stream_alignment. rewrite bytes_of_items_cons_u8, Z.mod_small by (auto; iok). reflexivity. Qed.
+
+Lemma write_registration v : bytes_ok (DescriptorRegistration_AdditionalIdentificationInfo v) ->
+  bytes_of_items (enc_registration v) = ref_registration v.
+Proof. intros H. unfold enc_registration, ref_registration. rewrite bytes_of_items_cons_u32, bytes_of_single_bytes by (auto; iok). reflexivity. Qed.
+
+Lemma write_private_data_indicator v : bytes_of_items (enc_private_data_indicator v) = ref_private_data_indicator v.
+Proof. apply bytes_of_u32. Qed.
+Lemma write_private_data_specifier v : bytes_of_items (enc_private_data_specifier v) = ref_private_data_specifier v.
+Proof. apply bytes_of_u32. Qed.
+
+Lemma write_iso639 v : length (DescriptorISO639LanguageAndAudioType_Language v) = 3%nat ->
+  bytes_ok (DescriptorISO639LanguageAndAudioType_Language v) -> byte_range (DescriptorISO639LanguageAndAudioType_Type v) ->
+  bytes_of_items (enc_iso639 v) = ref_iso639 v.
+Proof.
+  intros H3 Hb Hr. unfold enc_iso639, ref_iso639. rewrite wbytesn_3 by exact H3. cbn [app].
+  rewrite bytes_of_items_cons_bytes, bytes_of_items_cons_u8, Z.mod_small by (auto; iok). reflexivity.
+Qed.
+
+Lemma write_network_name v : bytes_ok (DescriptorNetworkName_Name v) -> bytes_of_items (enc_network_name v) = ref_network_name v.
+Proof. intros H. apply bytes_of_single_bytes. exact H. Qed.
+
+Lemma write_unknown v : bytes_ok (DescriptorUnknown_Content v) -> bytes_of_items (enc_unknown v) = ref_unknown v.
+Proof. intros H. apply bytes_of_single_bytes. exact H. Qed.
+
+Lemma write_service v : byte_range (DescriptorService_Type v) ->
+  bytes_ok (DescriptorService_Provider v) -> bytes_ok (DescriptorService_Name v) ->
+  zlen (DescriptorService_Provider v) < 256 -> zlen (DescriptorService_Name v) < 256 ->
+  bytes_of_items (enc_service v) = ref_service v.
+Proof.
+  intros Hr Hp Hn Hlp Hln. pose proof (zlen_nonneg (DescriptorService_Provider v)). pose proof (zlen_nonneg (DescriptorService_Name v)).
+  unfold enc_service, ref_service, blen. fold (zlen (DescriptorService_Provider v)) (zlen (DescriptorService_Name v)).
+  rewrite !bytes_of_items_cons_u8, bytes_of_items_cons_bytes, bytes_of_items_cons_u8, bytes_of_single_bytes by (auto; iok).
+  rewrite !Z.mod_small by (unfold byte_range in *; lia). reflexivity.
+Qed.
+
+Lemma write_short_event v : length (DescriptorShortEvent_Language v) = 3%nat -> bytes_ok (DescriptorShortEvent_Language v) ->
+  bytes_ok (DescriptorShortEvent_EventName v) -> bytes_ok (DescriptorShortEvent_Text v) ->
+  zlen (DescriptorShortEvent_EventName v) < 256 -> zlen (DescriptorShortEvent_Text v) < 256 ->
+  bytes_of_items (enc_short_event v) = ref_short_event v.
+Proof.
+  intros H3 Hl He Ht Hle Hlt. pose proof (zlen_nonneg (DescriptorShortEvent_EventName v)). pose proof (zlen_nonneg (DescriptorShortEvent_Text v)).
+  unfold enc_short_event, ref_short_event, blen. fold (zlen (DescriptorShortEvent_EventName v)) (zlen (DescriptorShortEvent_Text v)).
+  rewrite wbytesn_3 by exact H3. cbn [app].
+  rewrite bytes_of_items_cons_bytes, bytes_of_items_cons_u8, bytes_of_items_cons_bytes, bytes_of_items_cons_u8, bytes_of_single_bytes by (auto; iok).
+  rewrite !Z.mod_small by lia. reflexivity.
+Qed.
+
+(* list-valued bodies, by induction over the items *)
+Lemma bytes_of_items_flat_map {A} (f : A -> list witem) (g : A -> list Z) (n : A -> Z) (P : A -> Prop) (l : list A) :
+  (forall x, P x -> items_bytes_ok (f x) /\ bitlen (f x) = 8 * n x /\ bytes_of_items (f x) = g x) ->
+  Forall P l -> items_bytes_ok (flat_map f l) /\ bytes_of_items (flat_map f l) = flat_map g l.
+Proof.
+  intros H HF. induction HF as [|x l Hx _ [IHok IH]]; [split; [constructor|reflexivity]|].
+  destruct (H x Hx) as (Hok & Hb & Hg). cbn [flat_map]. split; [apply items_bytes_ok_app; assumption|].
+  rewrite (bytes_of_items_app _ _ (n x)) by assumption. rewrite Hg, IH. reflexivity.
+Qed.
+
+Lemma write_parental_rating v :
+  Forall (fun it => length (DescriptorParentalRatingItem_CountryCode it) = 3%nat /\ bytes_ok (DescriptorParentalRatingItem_CountryCode it) /\
+                    byte_range (DescriptorParentalRatingItem_Rating it)) (DescriptorParentalRating_Items v) ->
+  bytes_of_items (enc_parental_rating v) = ref_parental_rating v.
+Proof.
+  intros HF. unfold enc_parental_rating, ref_parental_rating.
+  apply (bytes_of_items_flat_map _ _ (fun _ => 4) _ _ ) with (2 := HF). intros it (H3 & Hb & Hr).
+  unfold enc_parental_rating_item. rewrite wbytesn_3 by exact H3. cbn [app]. split; [iok|]. split; [bl; unfold zlen; rewrite H3; reflexivity|].
+  rewrite bytes_of_items_cons_bytes, bytes_of_items_cons_u8, Z.mod_small by (auto; iok). reflexivity.
+Qed.
+
+Lemma write_subtitling v :
+  Forall (fun it => length (DescriptorSubtitlingItem_Language it) = 3%nat /\ bytes_ok (DescriptorSubtitlingItem_Language it) /\
+                    byte_range (DescriptorSubtitlingItem_Type it)) (DescriptorSubtitling_Items v) ->
+  bytes_of_items (enc_subtitling v) = ref_subtitling v.
+Proof.
+  intros HF. unfold enc_subtitling, ref_subtitling.
+  apply (bytes_of_items_flat_map _ _ (fun _ => 8) _ _ ) with (2 := HF). intros it (H3 & Hb & Hr).
+  unfold enc_subtitling_item. rewrite wbytesn_3 by exact H3. cbn [app]. split; [iok|]. split; [bl; unfold zlen; rewrite H3; reflexivity|].
+  rewrite bytes_of_items_cons_bytes, bytes_of_items_cons_u8, bytes_of_items_cons_u16, bytes_of_items_cons_u16, Z.mod_small by (auto; iok).
+  rewrite bytes_of_items_nil, app_nil_r. reflexivity.
+Qed.
+
+Lemma write_content v :
+  Forall (fun it => 0 <= DescriptorContentItem_ContentNibbleLevel1 it < 16 /\ 0 <= DescriptorContentItem_ContentNibbleLevel2 it < 16 /\
+                    byte_range (DescriptorContentItem_UserByte it)) (DescriptorContent_Items v) ->
+  bytes_of_items (enc_content v) = ref_content v.
+Proof.
+  intros HF. unfold enc_content, ref_content.
+  apply (bytes_of_items_flat_map _ _ (fun _ => 2) _ _ ) with (2 := HF). intros it (H1 & H2 & Hr).
+  unfold enc_content_item. split; [iok|]. split; [bl; reflexivity|].
+  rewrite bytes_of_items_cons_nibbles, bytes_of_items_cons_u8, Z.mod_small by (auto; iok). reflexivity.
+Qed.
+
+(* writeDescriptor: tag, size, body — with the body lemmas above this is the reference encoding of the descriptor *)
+Theorem write_descriptor_bytes d bi : enc_descriptor_body d = Ok bi -> items_bytes_ok bi ->
+  0 <= Descriptor_Tag d < 256 -> 0 < desc_size d < 256 ->
+  res_map bytes_of_items (enc_descriptor d) = Ok ([Descriptor_Tag d; desc_size d] ++ bytes_of_items bi).
+Proof.
+  intros Ebi Hok Ht Hs. unfold enc_descriptor. destruct (emitted_nowrap d ltac:(lia)) as [_ Ec]. rewrite Ec.
+  destruct (desc_size d =? 0) eqn:E; [lia|]. rewrite Ebi. cbn [res_map]. f_equal.
+  rewrite (bytes_of_items_app _ _ 2) by (try (unfold wu8; bl; reflexivity); iok). rewrite bytes_of_two_u8, !Z.mod_small by lia. reflexivity.
+Qed.
+
+(* one descriptor, no guard: what is emitted when the size wraps *)
+Theorem descriptor_any_len d its : enc_descriptor d = Ok its -> items_bytes_ok its ->
+  exists body,
+    bytes_of_items its = [Descriptor_Tag d mod 256; calc_descriptor_length d mod 256] ++ body /\
+    calc_descriptor_length d = desc_size d mod 256 /\
+    zlen body = (if desc_size d mod 256 =? 0 then 0 else desc_size d).
+Proof.
+  intros H Hok. destruct (enc_descriptor_bytes d its H Hok) as (body & E & Hl & _).
+  destruct (emitted_wrap d) as [Ec Ee]. exists body. rewrite <- Ee. auto.
+Qed.
+
+(* ================= part E: loops of several descriptors of mixed tags ================= *)
+
+(* what one entry of a loop parses back to: a descriptor whose body is empty (an empty list, an empty name: S7)
+   comes back as the bare header; otherwise the body-level round trip of its tag applies *)
+Definition entry_rt (d d' : Descriptor) : Prop :=
+  0 <= Descriptor_Tag d < 256 /\ desc_size d < 256 /\
+  ((desc_size d = 0 /\ d' = desc_hdr (Descriptor_Tag d) 0) \/ (0 < desc_size d /\ body_rt d d')).
+
+Definition body_facts (d : Descriptor) (b : list Z) : Prop :=
+  zlen b = desc_size d /\
+  (desc_size d = 0 -> b = []) /\
+  (0 < desc_size d -> exists bi, enc_descriptor_body d = Ok bi /\ items_bytes_ok bi /\ b = bytes_of_items bi).
+
+Lemma enc_descriptor_body_facts d its : enc_descriptor d = Ok its -> items_bytes_ok its -> desc_size d < 256 ->
+  exists b, bytes_of_items its = entry_bytes d b /\ body_facts d b /\ bitlen its = 8 * (2 + desc_size d).
+Proof.
+  intros H Hok Hs. pose proof (desc_size_nonneg d) as Hnn. destruct (emitted_nowrap d Hs) as [Ee Ec].
+  unfold enc_descriptor in H. rewrite Ec in H. destruct (desc_size d =? 0) eqn:Ez.
+  - inversion H; subst its. exists []. split; [|split].
+    + unfold entry_bytes. rewrite app_nil_r, Ec. apply bytes_of_two_u8.
+    + split; [unfold zlen; cbn; lia|]. split; [reflexivity|lia].
+    + unfold wu8. bl. lia.
+  - destruct (enc_descriptor_body d) as [bi| |] eqn:Ebi; cbn [res_map] in H; try discriminate H.
+    assert (Ei : its = [wu8 (Descriptor_Tag d); wu8 (desc_size d)] ++ bi) by (inversion H; reflexivity). subst its.
+    apply items_bytes_ok_app_inv in Hok. destruct Hok as [Hoh Hob].
+    pose proof (enc_descriptor_body_size d bi Ebi) as Hbl.
+    exists (bytes_of_items bi). split; [|split].
+    + rewrite (bytes_of_items_app _ _ 2) by (auto; unfold wu8; bl; reflexivity). rewrite bytes_of_two_u8. unfold entry_bytes. rewrite Ec. reflexivity.
+    + split; [apply bytes_of_items_zlen; assumption|]. split; [lia|]. intros _. exists bi. auto.
+    + rewrite bitlen_app, Hbl. unfold wu8. bl. lia.
+Qed.
+
+Lemma enc_descriptors_bodies ds : forall its, enc_descriptors ds = Ok its -> items_bytes_ok its ->
+  Forall (fun d => desc_size d < 256) ds ->
+  exists bodies, bytes_of_items its = loop_bytes ds bodies /\ Forall2 body_facts ds bodies.
+Proof.
+  induction ds as [|d ds IH]; intros its H Hok HF.
+  - inversion H; subst. exists []. split; [reflexivity|constructor].
+  - cbn [enc_descriptors] in H. destruct (enc_descriptor d) as [a| |] eqn:Ea; cbn [res_bind] in H; try discriminate H.
+    destruct (enc_descriptors ds) as [r| |] eqn:Er; cbn [res_map] in H; try discriminate H.
+    inversion H; subst. inversion HF; subst. apply items_bytes_ok_app_inv in Hok. destruct Hok as [Hoa Hor].
+    destruct (enc_descriptor_body_facts d a Ea Hoa ltac:(assumption)) as (b & Eb & Hf & Hbits).
+    destruct (IH r eq_refl Hor ltac:(assumption)) as (bodies & Ebs & HF2).
+    exists (b :: bodies). split; [|constructor; assumption].
+    rewrite (bytes_of_items_app _ _ (2 + desc_size d)) by assumption. rewrite Eb, Ebs. reflexivity.
+Qed.
+
+Lemma byte_of_mid0 pre x l : byte_of (pre ++ x :: l) (zlen pre) = x.
+Proof. unfold byte_of, zlen. rewrite Nat2Z.id, app_nth2, Nat.sub_diag by lia. reflexivity. Qed.
+Lemma byte_of_mid1 pre x y l : byte_of (pre ++ x :: y :: l) (zlen pre + 1) = y.
+Proof.
+  unfold byte_of, zlen. replace (Z.to_nat (Z.of_nat (length pre) + 1)) with (length pre + 1)%nat by lia.
+  rewrite app_nth2 by lia. replace (length pre + 1 - length pre)%nat with 1%nat by lia. reflexivity.
+Qed.
+
+Lemma loop_size_cons d ds : loop_size (d :: ds) = 2 + desc_size d + loop_size ds.
+Proof. reflexivity. Qed.
+Lemma loop_size_nonneg ds : 0 <= loop_size ds.
+Proof. apply sumZ_nonneg. intros x. pose proof (desc_size_nonneg x). lia. Qed.
+
+Lemma tlv_parse_empty' hdr body bs endp pos tag ds fin :
+  pos < endp -> 0 <= pos -> pos + 2 <= zlen bs -> byte_of bs pos = tag -> byte_of bs (pos + 1) = 0 ->
+  tlv_parse hdr body bs endp (pos + 2) ds fin -> tlv_parse hdr body bs endp pos (hdr tag 0 :: ds) fin.
+Proof.
+  intros H1 H2 H3 <- E0 Ht. replace (hdr (byte_of bs pos) 0) with (hdr (byte_of bs pos) (byte_of bs (pos + 1))) by (rewrite E0; reflexivity).
+  apply tlv_parse_empty; try assumption. lia.
+Qed.
+
+Lemma tlv_parse_body' hdr body bs endp pos tag len d i' ds fin :
+  pos < endp -> 0 <= pos -> pos + 2 <= zlen bs -> byte_of bs pos = tag -> byte_of bs (pos + 1) = len -> 0 < len ->
+  body tag len (pos + 2 + len) (mk_iter bs (pos + 2)) = Ok (d, i') ->
+  tlv_parse hdr body bs endp (pos + 2 + len) ds fin -> tlv_parse hdr body bs endp pos (d :: ds) fin.
+Proof. intros H1 H2 H3 <- <- Hl Eb Ht. eapply tlv_parse_body; eassumption. Qed.
+
+Lemma loop_tlv ds ds' : Forall2 entry_rt ds ds' -> forall bodies, Forall2 body_facts ds bodies ->
+  forall pre rest endp, endp = zlen pre + loop_size ds ->
+  tlv_parse desc_hdr parse_descriptor_body (pre ++ loop_bytes ds bodies ++ rest) endp (zlen pre) ds' endp.
+Proof.
+  induction 1 as [|d d' ds ds' (Htag & Hlt & Hcase) _ IH]; intros bodies HB pre rest endp He.
+  - inversion HB; subst. replace (zlen pre + loop_size []) with (zlen pre) by (unfold loop_size; cbn; lia).
+    apply tlv_parse_done. lia.
+  - inversion HB as [|? b ? bodies' (Hzl & Hb0 & Hbi) HB']; subst. cbn [loop_bytes]. unfold entry_bytes.
+    pose proof (desc_size_nonneg d) as Hnn. pose proof (loop_size_nonneg ds) as Hln. pose proof (zlen_nonneg pre) as Hpn.
+    destruct (emitted_nowrap d Hlt) as [_ Ec]. rewrite Ec, !Z.mod_small by lia.
+    rewrite loop_size_cons.
+    set (tail := loop_bytes ds bodies').
+    set (tg := Descriptor_Tag d) in *. set (sz := desc_size d) in *.
+    set (buf := pre ++ (([tg; sz] ++ b) ++ tail) ++ rest).
+    assert (Ebuf : buf = pre ++ tg :: sz :: b ++ tail ++ rest) by (unfold buf; cbn [app]; rewrite <- app_assoc; reflexivity).
+    assert (Hz : zlen buf = zlen pre + 2 + sz + zlen tail + zlen rest).
+    { rewrite Ebuf, zlen_app, !zlen_cons, !zlen_app. lia. }
+    pose proof (zlen_nonneg tail). pose proof (zlen_nonneg rest).
+    assert (Et : byte_of buf (zlen pre) = tg) by (rewrite Ebuf; apply byte_of_mid0).
+    assert (El : byte_of buf (zlen pre + 1) = sz) by (rewrite Ebuf; apply byte_of_mid1).
+    destruct Hcase as [(Hs0 & ->)|(Hpos & Hrt)].
+    + assert (Eb0 : b = []) by (apply Hb0; exact Hs0).
+      apply tlv_parse_empty'; try lia; try assumption.
+      assert (Eb2 : buf = (pre ++ [tg; sz]) ++ tail ++ rest) by (rewrite Ebuf, Eb0; cbn [app]; rewrite <- app_assoc; reflexivity).
+      rewrite Eb2. replace (zlen pre + 2) with (zlen (pre ++ [tg; sz])) by (rewrite zlen_app; reflexivity).
+      apply IH; [exact HB'|]. rewrite zlen_app. change (zlen [tg; sz]) with 2. lia.
+    + destruct (Hbi Hpos) as (bi & Ebi & Hbok & Ebb).
+      destruct (Hrt (pre ++ [tg; sz]) b (tail ++ rest) (ex_intro _ bi (conj Ebi (conj Hbok Ebb)))) as (i1 & Ei1).
+      assert (Eb2 : (pre ++ [tg; sz]) ++ b ++ tail ++ rest = buf) by (rewrite Ebuf, <- app_assoc; reflexivity).
+      assert (Ez2 : zlen (pre ++ [tg; sz]) = zlen pre + 2) by (rewrite zlen_app; reflexivity).
+      rewrite Eb2, Ez2 in Ei1.
+      apply (tlv_parse_body' _ _ _ _ _ tg sz d' i1); try lia; try assumption.
+      assert (Eb3 : buf = (pre ++ [tg; sz] ++ b) ++ tail ++ rest) by (rewrite Ebuf, <- !app_assoc; reflexivity).
+      rewrite Eb3. replace (zlen pre + 2 + sz) with (zlen (pre ++ [tg; sz] ++ b)) by (rewrite !zlen_app; change (zlen [tg; sz]) with 2; lia).
+      apply IH; [exact HB'|]. rewrite !zlen_app. change (zlen [tg; sz]) with 2. lia.
+Qed.
+
+(* a loop of any number of descriptors of mixed tags: parsing what writeDescriptorsWithLength emits yields the
+   entry-wise results and stops right behind the loop *)
+Theorem loop_roundtrip ds ds' out rest :
+  enc_descriptors_with_length ds = Ok out -> items_bytes_ok out -> loop_size ds < 4096 ->
+  Forall2 entry_rt ds ds' ->
+  parse_descriptors (new_iter (bytes_of_items out ++ rest)) = Ok (ds', mk_iter (bytes_of_items out ++ rest) (2 + loop_size ds)).
+Proof.
+  intros H Hok Hl HR.
+  assert (HF : Forall (fun d => desc_size d < 256) ds).
+  { clear -HR. induction HR as [|d d' ds ds' (_ & Hlt & _) _ IH]; constructor; assumption. }
+  destruct (descriptors_with_length_exact ds out H Hok HF Hl) as (hdr0 & bodies0 & _ & _ & _ & Hbits & Hlen).
+  unfold enc_descriptors_with_length in H.
+  destruct (enc_descriptors ds) as [its| |] eqn:E; cbn [res_map] in H; try discriminate H.
+  assert (Eo : out = [WBits 4 255; WBits 12 (calc_descriptors_length ds)] ++ its) by (inversion H; reflexivity).
+  subst out; clear H. apply items_bytes_ok_app_inv in Hok. destruct Hok as [Hoh Hoi].
+  destruct (enc_descriptors_bodies ds its E Hoi HF) as (bodies & Eb & HB).
+  set (hd := [WBits 4 255; WBits 12 (calc_descriptors_length ds)]) in *.
+  assert (Hh2 : zlen (bytes_of_items hd) = 2) by (apply bytes_of_items_zlen; [assumption|unfold hd; bl; reflexivity]).
+  destruct (bytes_of_items hd) as [|h0 [|h1 [|h2 hl]]] eqn:Ehd; unfold zlen in Hh2; cbn [length] in Hh2; try lia.
+  rewrite (bytes_of_items_app hd its 2) in * by (auto; unfold hd; bl; reflexivity). rewrite Ehd, Eb in *.
+  set (buf := ([h0; h1] ++ loop_bytes ds bodies) ++ rest).
+  assert (Ebuf : buf = [h0; h1] ++ loop_bytes ds bodies ++ rest) by (unfold buf; rewrite <- app_assoc; reflexivity).
+  assert (Hl0 : loop_length_at buf 0 = loop_size ds).
+  { rewrite Hlen in Hbits. cbn [app] in Hbits. rewrite bitsf_prefix2 in Hbits.
+    replace (loop_size ds) with (bitsf [h0; h1] 4 12) by lia. symmetry. rewrite Ebuf. apply loop_length_bits; reflexivity. }
+  pose proof (loop_size_nonneg ds) as Hnn.
+  unfold parse_descriptors, new_iter. fold buf.
+  apply parse_descriptors_complete; [apply pres_parse_descriptor_body|lia| |].
+  - unfold buf. rewrite zlen_app, Hlen. pose proof (zlen_nonneg rest). lia.
+  - rewrite Hl0, Ebuf. change (0 + 2) with (zlen [h0; h1]).
+    replace (2 + loop_size ds) with (zlen [h0; h1] + loop_size ds) by reflexivity.
+    apply loop_tlv; [exact HR|exact HB|reflexivity].
+Qed.
